@@ -11,6 +11,12 @@ type nat =
 | O
 | S of nat
 
+(** val option_map : ('a1 -> 'a2) -> 'a1 option -> 'a2 option **)
+
+let option_map f = function
+| Some a -> Some (f a)
+| None -> None
+
 type ('a, 'b) sum =
 | Inl of 'a
 | Inr of 'b
@@ -162,6 +168,15 @@ type z =
 
 module Nat =
  struct
+  (** val sub : nat -> nat -> nat **)
+
+  let rec sub n0 m =
+    match n0 with
+    | O -> n0
+    | S k -> (match m with
+              | O -> n0
+              | S l -> sub k l)
+
   (** val eqb : nat -> nat -> bool **)
 
   let rec eqb n0 m =
@@ -186,6 +201,28 @@ module Nat =
 
   let ltb n0 m =
     leb (S n0) m
+
+  (** val divmod : nat -> nat -> nat -> nat -> nat * nat **)
+
+  let rec divmod x y q0 u =
+    match x with
+    | O -> (q0, u)
+    | S x' ->
+      (match u with
+       | O -> divmod x' y (S q0) y
+       | S u' -> divmod x' y q0 u')
+
+  (** val div : nat -> nat -> nat **)
+
+  let div x y = match y with
+  | O -> y
+  | S y' -> fst (divmod x y' O y')
+
+  (** val modulo : nat -> nat -> nat **)
+
+  let modulo x = function
+  | O -> x
+  | S y' -> sub y' (snd (divmod x y' O y'))
 
   (** val div2 : nat -> nat **)
 
@@ -478,6 +515,17 @@ module N =
                  | N0 -> N0
                  | Npos q0 -> Npos (Coq_Pos.mul p q0))
 
+  (** val compare : n -> n -> comparison **)
+
+  let compare n0 m =
+    match n0 with
+    | N0 -> (match m with
+             | N0 -> Eq
+             | Npos _ -> Lt)
+    | Npos n' -> (match m with
+                  | N0 -> Gt
+                  | Npos m' -> Coq_Pos.compare n' m')
+
   (** val to_nat : n -> nat **)
 
   let to_nat = function
@@ -551,6 +599,12 @@ let n_of_ascii a =
 
 let nat_of_ascii a =
   N.to_nat (n_of_ascii a)
+
+(** val compare0 : char -> char -> comparison **)
+
+let compare0 = fun c1 c2 ->
+    let cmp = Char.compare c1 c2 in
+    if cmp < 0 then Lt else if cmp = 0 then Eq else Gt
 
 (** val hd : 'a1 -> 'a1 list -> 'a1 **)
 
@@ -930,6 +984,37 @@ let zeq_bool x y =
   | Eq -> true
   | _ -> false
 
+(** val compare1 : string -> string -> comparison **)
+
+let rec compare1 s1 s2 =
+  (* If this appears, you're using String internals. Please don't *)
+ (fun f0 f1 s ->
+    let l = String.length s in
+    if l = 0 then f0 () else f1 (String.get s 0) (String.sub s 1 (l-1)))
+
+    (fun _ ->
+    (* If this appears, you're using String internals. Please don't *)
+ (fun f0 f1 s ->
+    let l = String.length s in
+    if l = 0 then f0 () else f1 (String.get s 0) (String.sub s 1 (l-1)))
+
+      (fun _ -> Eq)
+      (fun _ _ -> Lt)
+      s2)
+    (fun c1 s1' ->
+    (* If this appears, you're using String internals. Please don't *)
+ (fun f0 f1 s ->
+    let l = String.length s in
+    if l = 0 then f0 () else f1 (String.get s 0) (String.sub s 1 (l-1)))
+
+      (fun _ -> Gt)
+      (fun c2 s2' ->
+      match compare0 c1 c2 with
+      | Eq -> compare1 s1' s2'
+      | x -> x)
+      s2)
+    s1
+
 (** val length0 : string -> nat **)
 
 let rec length0 s =
@@ -1016,6 +1101,7 @@ type exn =
 | UsageError
 | ElectionError
 | ElectionProfileError
+| ArithmeticValuesError
 
 type 'a res =
 | Ok of 'a
@@ -1236,6 +1322,15 @@ let rec render_fmt w1 w2 = function
   (fun (c, s) -> String.make 1 c ^ s)
 
     ('-', (render_fmt w1 w2 g))
+
+(** val digit_of : char -> z option **)
+
+let digit_of c =
+  let n0 = Z.of_nat (nat_of_ascii c) in
+  if (&&) (Z.leb (Zpos (XO (XO (XO (XO (XI XH)))))) n0)
+       (Z.leb n0 (Zpos (XI (XO (XO (XI (XI XH)))))))
+  then Some (Z.sub n0 (Zpos (XO (XO (XO (XO (XI XH)))))))
+  else None
 
 (** val qfloor : q -> z **)
 
@@ -4332,6 +4427,7 @@ let exn_name = function
 | UsageError -> "UsageError"
 | ElectionError -> "ElectionError"
 | ElectionProfileError -> "ElectionProfileError"
+| ArithmeticValuesError -> "ArithmeticValuesError"
 
 (** val space_ranges : (z * z) list **)
 
@@ -7217,7 +7313,7 @@ let rd_header = function
                                        | TI nu ->
                                          (match rd_strs (Z.to_nat nu) t7 with
                                           | Some p ->
-                                            let (unused, l6) = p in
+                                            let (unused0, l6) = p in
                                             (match l6 with
                                              | [] -> None
                                              | t8 :: t9 ->
@@ -7297,7 +7393,7 @@ let rd_header = function
                                                                     h_arith_info =
                                                                     ai;
                                                                     h_unused =
-                                                                    unused;
+                                                                    unused0;
                                                                     h_overridden =
                                                                     over;
                                                                     h_quota_name =
@@ -7676,6 +7772,2451 @@ let run_render l =
                a)
              s)))
   | None -> "badheader"
+
+type oval =
+| VNone
+| VBool of bool
+| VInt of z
+| VStr of string
+
+(** val oval_num : oval -> z option **)
+
+let oval_num = function
+| VBool b -> Some (if b then Zpos XH else Z0)
+| VInt z0 -> Some z0
+| _ -> None
+
+(** val oval_eqb : oval -> oval -> bool **)
+
+let oval_eqb a b =
+  match a with
+  | VNone ->
+    (match b with
+     | VNone -> true
+     | _ ->
+       (match oval_num a with
+        | Some x ->
+          (match oval_num b with
+           | Some y -> Z.eqb x y
+           | None -> false)
+        | None -> false))
+  | VStr s ->
+    (match b with
+     | VStr t0 -> (=) s t0
+     | _ ->
+       (match oval_num a with
+        | Some x ->
+          (match oval_num b with
+           | Some y -> Z.eqb x y
+           | None -> false)
+        | None -> false))
+  | _ ->
+    (match oval_num a with
+     | Some x -> (match oval_num b with
+                  | Some y -> Z.eqb x y
+                  | None -> false)
+     | None -> false)
+
+(** val is_none : oval -> bool **)
+
+let is_none = function
+| VNone -> true
+| _ -> false
+
+(** val py_str : oval -> string **)
+
+let py_str = function
+| VNone -> "None"
+| VBool b -> if b then "True" else "False"
+| VInt z0 -> string_of_Z z0
+| VStr s -> s
+
+(** val is_digit0 : char -> bool **)
+
+let is_digit0 c =
+  match digit_of c with
+  | Some _ -> true
+  | None -> false
+
+(** val nl_char : char **)
+
+let nl_char =
+  ascii_of_nat (S (S (S (S (S (S (S (S (S (S O))))))))))
+
+(** val digits_value : string -> z -> z **)
+
+let rec digits_value s acc =
+  (* If this appears, you're using String internals. Please don't *)
+ (fun f0 f1 s ->
+    let l = String.length s in
+    if l = 0 then f0 () else f1 (String.get s 0) (String.sub s 1 (l-1)))
+
+    (fun _ -> acc)
+    (fun c t0 ->
+    match digit_of c with
+    | Some d -> digits_value t0 (Z.add (Z.mul acc (Zpos (XO (XI (XO XH))))) d)
+    | None -> acc)
+    s
+
+(** val digits_then_end : string -> bool -> bool **)
+
+let rec digits_then_end s seen =
+  (* If this appears, you're using String internals. Please don't *)
+ (fun f0 f1 s ->
+    let l = String.length s in
+    if l = 0 then f0 () else f1 (String.get s 0) (String.sub s 1 (l-1)))
+
+    (fun _ -> seen)
+    (fun c t0 ->
+    if is_digit0 c
+    then digits_then_end t0 true
+    else (&&) ((&&) seen ((=) c nl_char))
+           ((* If this appears, you're using String internals. Please don't *)
+ (fun f0 f1 s ->
+    let l = String.length s in
+    if l = 0 then f0 () else f1 (String.get s 0) (String.sub s 1 (l-1)))
+
+              (fun _ -> true)
+              (fun _ _ -> false)
+              t0))
+    s
+
+(** val matches_digits : string -> bool **)
+
+let matches_digits s =
+  digits_then_end s false
+
+(** val normalize_val : oval -> oval **)
+
+let normalize_val v = match v with
+| VStr s -> if matches_digits s then VInt (digits_value s Z0) else v
+| _ -> v
+
+(** val is_space0 : char -> bool **)
+
+let is_space0 c =
+  let n0 = nat_of_ascii c in
+  (||)
+    ((&&) (Nat.leb (S (S (S (S (S (S (S (S (S O))))))))) n0)
+      (Nat.leb n0 (S (S (S (S (S (S (S (S (S (S (S (S (S O)))))))))))))))
+    ((&&)
+      (Nat.leb (S (S (S (S (S (S (S (S (S (S (S (S (S (S (S (S (S (S (S (S (S
+        (S (S (S (S (S (S (S O)))))))))))))))))))))))))))) n0)
+      (Nat.leb n0 (S (S (S (S (S (S (S (S (S (S (S (S (S (S (S (S (S (S (S (S
+        (S (S (S (S (S (S (S (S (S (S (S (S O))))))))))))))))))))))))))))))))))
+
+(** val lstrip : string -> string **)
+
+let rec lstrip s =
+  (* If this appears, you're using String internals. Please don't *)
+ (fun f0 f1 s ->
+    let l = String.length s in
+    if l = 0 then f0 () else f1 (String.get s 0) (String.sub s 1 (l-1)))
+
+    (fun _ -> s)
+    (fun c t0 -> if is_space0 c then lstrip t0 else s)
+    s
+
+(** val rstrip : string -> string **)
+
+let rec rstrip s =
+  (* If this appears, you're using String internals. Please don't *)
+ (fun f0 f1 s ->
+    let l = String.length s in
+    if l = 0 then f0 () else f1 (String.get s 0) (String.sub s 1 (l-1)))
+
+    (fun _ -> "")
+    (fun c t0 ->
+    (* If this appears, you're using String internals. Please don't *)
+ (fun f0 f1 s ->
+    let l = String.length s in
+    if l = 0 then f0 () else f1 (String.get s 0) (String.sub s 1 (l-1)))
+
+      (fun _ ->
+      if is_space0 c
+      then ""
+      else (* If this appears, you're using String internals. Please don't *)
+  (fun (c, s) -> String.make 1 c ^ s)
+
+             (c, ""))
+      (fun a s0 ->
+      (* If this appears, you're using String internals. Please don't *)
+  (fun (c, s) -> String.make 1 c ^ s)
+
+      (c,
+      ((* If this appears, you're using String internals. Please don't *)
+  (fun (c, s) -> String.make 1 c ^ s)
+
+      (a, s0))))
+      (rstrip t0))
+    s
+
+(** val int_body : string -> z -> bool -> z option **)
+
+let rec int_body s acc prev_digit =
+  (* If this appears, you're using String internals. Please don't *)
+ (fun f0 f1 s ->
+    let l = String.length s in
+    if l = 0 then f0 () else f1 (String.get s 0) (String.sub s 1 (l-1)))
+
+    (fun _ -> if prev_digit then Some acc else None)
+    (fun c t0 ->
+    match digit_of c with
+    | Some d ->
+      int_body t0 (Z.add (Z.mul acc (Zpos (XO (XI (XO XH))))) d) true
+    | None ->
+      if (&&) ((=) c '_') prev_digit then int_body t0 acc false else None)
+    s
+
+(** val py_int_str : string -> z option **)
+
+let py_int_str s0 =
+  let s = rstrip (lstrip s0) in
+  ((* If this appears, you're using String internals. Please don't *)
+ (fun f0 f1 s ->
+    let l = String.length s in
+    if l = 0 then f0 () else f1 (String.get s 0) (String.sub s 1 (l-1)))
+
+     (fun _ -> None)
+     (fun c t0 ->
+     if (=) c '-'
+     then option_map Z.opp (int_body t0 Z0 false)
+     else if (=) c '+' then int_body t0 Z0 false else int_body s Z0 false)
+     s)
+
+(** val py_int0 : oval -> z res **)
+
+let py_int0 = function
+| VNone -> Raise TypeError
+| VBool b -> Ok (if b then Zpos XH else Z0)
+| VInt z0 -> Ok z0
+| VStr s ->
+  (match py_int_str s with
+   | Some z0 -> Ok z0
+   | None -> Raise ValueError)
+
+(** val py_floordiv_int : oval -> z -> oval res **)
+
+let py_floordiv_int v k =
+  match oval_num v with
+  | Some z0 -> Ok (VInt (Z.div z0 k))
+  | None -> Raise TypeError
+
+(** val py_mul2_floordiv3 : oval -> oval res **)
+
+let py_mul2_floordiv3 v =
+  match oval_num v with
+  | Some z0 -> Ok (VInt (Z.div (Z.mul z0 (Zpos (XO XH))) (Zpos (XI XH))))
+  | None -> Raise TypeError
+
+(** val str_endswith_aux : string -> string -> nat -> bool **)
+
+let rec str_endswith_aux s suf = function
+| O -> (=) s suf
+| S k ->
+  ((* If this appears, you're using String internals. Please don't *)
+ (fun f0 f1 s ->
+    let l = String.length s in
+    if l = 0 then f0 () else f1 (String.get s 0) (String.sub s 1 (l-1)))
+
+     (fun _ -> false)
+     (fun _ t0 -> str_endswith_aux t0 suf k)
+     s)
+
+(** val str_endswith : string -> string -> bool **)
+
+let str_endswith s suf =
+  (&&) (Nat.leb (length0 suf) (length0 s))
+    (str_endswith_aux s suf (sub (length0 s) (length0 suf)))
+
+(** val lower_char : char -> char **)
+
+let lower_char c =
+  let n0 = nat_of_ascii c in
+  if (&&)
+       (Nat.leb (S (S (S (S (S (S (S (S (S (S (S (S (S (S (S (S (S (S (S (S
+         (S (S (S (S (S (S (S (S (S (S (S (S (S (S (S (S (S (S (S (S (S (S (S
+         (S (S (S (S (S (S (S (S (S (S (S (S (S (S (S (S (S (S (S (S (S (S
+         O)))))))))))))))))))))))))))))))))))))))))))))))))))))))))))))))))
+         n0)
+       (Nat.leb n0 (S (S (S (S (S (S (S (S (S (S (S (S (S (S (S (S (S (S (S
+         (S (S (S (S (S (S (S (S (S (S (S (S (S (S (S (S (S (S (S (S (S (S (S
+         (S (S (S (S (S (S (S (S (S (S (S (S (S (S (S (S (S (S (S (S (S (S (S
+         (S (S (S (S (S (S (S (S (S (S (S (S (S (S (S (S (S (S (S (S (S (S (S
+         (S (S
+         O)))))))))))))))))))))))))))))))))))))))))))))))))))))))))))))))))))))))))))))))))))))))))))
+  then ascii_of_nat
+         (add n0 (S (S (S (S (S (S (S (S (S (S (S (S (S (S (S (S (S (S (S (S
+           (S (S (S (S (S (S (S (S (S (S (S (S
+           O)))))))))))))))))))))))))))))))))
+  else c
+
+(** val str_lower : string -> string **)
+
+let rec str_lower s =
+  (* If this appears, you're using String internals. Please don't *)
+ (fun f0 f1 s ->
+    let l = String.length s in
+    if l = 0 then f0 () else f1 (String.get s 0) (String.sub s 1 (l-1)))
+
+    (fun _ -> "")
+    (fun c t0 ->
+    (* If this appears, you're using String internals. Please don't *)
+  (fun (c, s) -> String.make 1 c ^ s)
+
+    ((lower_char c), (str_lower t0)))
+    s
+
+(** val split_eq : string -> string -> string list **)
+
+let rec split_eq s cur =
+  (* If this appears, you're using String internals. Please don't *)
+ (fun f0 f1 s ->
+    let l = String.length s in
+    if l = 0 then f0 () else f1 (String.get s 0) (String.sub s 1 (l-1)))
+
+    (fun _ -> cur :: [])
+    (fun c t0 ->
+    if (=) c '='
+    then cur :: (split_eq t0 "")
+    else split_eq t0
+           ((^) cur
+             ((* If this appears, you're using String internals. Please don't *)
+  (fun (c, s) -> String.make 1 c ^ s)
+
+             (c, ""))))
+    s
+
+(** val insert_sorted : string -> string list -> string list **)
+
+let rec insert_sorted x l = match l with
+| [] -> x :: []
+| y :: t0 ->
+  (match compare1 x y with
+   | Eq -> l
+   | Lt -> x :: l
+   | Gt -> y :: (insert_sorted x t0))
+
+(** val sort_set : string list -> string list **)
+
+let sort_set l =
+  fold_right insert_sorted [] l
+
+type 'v dict = (string * 'v) list
+
+(** val dget : string -> 'a1 dict -> 'a1 option **)
+
+let rec dget k = function
+| [] -> None
+| p :: t0 -> let (k', v) = p in if (=) k k' then Some v else dget k t0
+
+(** val dmem : string -> 'a1 dict -> bool **)
+
+let dmem k d =
+  match dget k d with
+  | Some _ -> true
+  | None -> false
+
+(** val dset : string -> 'a1 -> 'a1 dict -> 'a1 dict **)
+
+let rec dset k v = function
+| [] -> (k, v) :: []
+| p :: t0 ->
+  let (k', v') = p in
+  if (=) k k' then (k', v) :: t0 else (k', v') :: (dset k v t0)
+
+(** val dsetdefault : string -> 'a1 -> 'a1 dict -> 'a1 dict **)
+
+let dsetdefault k v d =
+  if dmem k d then d else dset k v d
+
+(** val dkeys : 'a1 dict -> string list **)
+
+let dkeys d =
+  map fst d
+
+(** val dupdate : 'a1 dict -> 'a1 dict -> 'a1 dict **)
+
+let dupdate d e =
+  fold_left (fun acc kv -> dset (fst kv) (snd kv) acc) e d
+
+(** val dget_or : string -> 'a1 dict -> 'a1 -> 'a1 **)
+
+let dget_or k d dflt =
+  match dget k d with
+  | Some v -> v
+  | None -> dflt
+
+(** val dict_of_list : (string * 'a1) list -> 'a1 dict **)
+
+let dict_of_list l =
+  dupdate [] l
+
+type store = { o_cmd : oval dict; o_file : oval dict; o_default : oval dict;
+               o_force : oval dict; o_allowed : oval list dict }
+
+(** val set_cmd : store -> oval dict -> store **)
+
+let set_cmd o d =
+  { o_cmd = d; o_file = o.o_file; o_default = o.o_default; o_force =
+    o.o_force; o_allowed = o.o_allowed }
+
+(** val set_file : store -> oval dict -> store **)
+
+let set_file o d =
+  { o_cmd = o.o_cmd; o_file = d; o_default = o.o_default; o_force =
+    o.o_force; o_allowed = o.o_allowed }
+
+(** val set_default : store -> oval dict -> store **)
+
+let set_default o d =
+  { o_cmd = o.o_cmd; o_file = o.o_file; o_default = d; o_force = o.o_force;
+    o_allowed = o.o_allowed }
+
+(** val set_force : store -> oval dict -> store **)
+
+let set_force o d =
+  { o_cmd = o.o_cmd; o_file = o.o_file; o_default = o.o_default; o_force = d;
+    o_allowed = o.o_allowed }
+
+(** val set_allowed : store -> oval list dict -> store **)
+
+let set_allowed o d =
+  { o_cmd = o.o_cmd; o_file = o.o_file; o_default = o.o_default; o_force =
+    o.o_force; o_allowed = d }
+
+(** val normalize_dict : oval dict -> oval dict **)
+
+let normalize_dict d =
+  map (fun kv -> ((fst kv), (normalize_val (snd kv)))) d
+
+(** val new_options : oval dict -> store **)
+
+let new_options cmd0 =
+  { o_cmd = (normalize_dict cmd0); o_file = []; o_default = []; o_force = [];
+    o_allowed = [] }
+
+(** val update1 : store -> string -> oval -> bool -> store **)
+
+let update1 o k v = function
+| true -> set_file o (dset k (normalize_val v) o.o_file)
+| false -> set_cmd o (dset k (normalize_val v) o.o_cmd)
+
+(** val update_dict : store -> oval dict -> bool -> store **)
+
+let update_dict o d file_options =
+  fold_left (fun acc kv -> update1 acc (fst kv) (snd kv) file_options) d o
+
+(** val getopt : store -> string -> oval **)
+
+let getopt o k =
+  let v = dget_or k o.o_default VNone in
+  let v2 = dget_or k o.o_file v in
+  let v3 = dget_or k o.o_cmd v2 in dget_or k o.o_force v3
+
+(** val setopt_store : store -> string -> oval -> bool -> store **)
+
+let setopt_store o k dflt force =
+  let d = normalize_val dflt in
+  let o1 = set_default o (dsetdefault k d o.o_default) in
+  if force then set_force o1 (dset k d o1.o_force) else o1
+
+(** val setopt :
+    string -> oval -> bool -> oval list -> store -> oval res * store **)
+
+let setopt k dflt force allowed o =
+  let o2 = setopt_store o k dflt force in
+  let v = getopt o2 k in
+  (match allowed with
+   | [] -> ((Ok v), o2)
+   | _ :: _ ->
+     let o3 = set_allowed o2 (dset k allowed o2.o_allowed) in
+     if negb (existsb (fun x -> oval_eqb x v) allowed)
+     then ((Raise UsageError), o3)
+     else ((Ok v), o3))
+
+(** val str_in : string -> string list -> bool **)
+
+let str_in x l =
+  existsb ((=) x) l
+
+(** val unused : store -> string list **)
+
+let unused o =
+  let opts0 = app (dkeys o.o_file) (dkeys o.o_cmd) in
+  let opts1 =
+    filter (fun k -> negb (str_in k ("rule" :: ("path" :: [])))) opts0
+  in
+  let opts2 = filter (fun k -> negb (dmem k o.o_default)) opts1 in
+  sort_set opts2
+
+(** val overrides : store -> string list **)
+
+let overrides o =
+  let opts0 = dupdate o.o_file o.o_cmd in
+  let overridden =
+    filter (fun kv ->
+      match dget (fst kv) opts0 with
+      | Some v -> negb (oval_eqb v (snd kv))
+      | None -> false) o.o_force
+  in
+  sort_set (map fst overridden)
+
+type orecord = { rec_cmd : oval dict; rec_file : oval dict;
+                 rec_default : oval dict; rec_force : oval dict;
+                 rec_allowed : oval list dict; rec_options : oval dict }
+
+(** val record : store -> orecord **)
+
+let record o =
+  let effective = dupdate [] o.o_default in
+  let effective0 = dupdate effective o.o_file in
+  let effective1 = dupdate effective0 o.o_cmd in
+  let effective2 = dupdate effective1 o.o_force in
+  { rec_cmd = o.o_cmd; rec_file = o.o_file; rec_default = o.o_default;
+  rec_force = o.o_force; rec_allowed = o.o_allowed; rec_options = effective2 }
+
+(** val arithmetic_names : string list **)
+
+let arithmetic_names =
+  "fixed" :: ("integer" :: ("rational" :: ("guarded" :: [])))
+
+(** val rule_names : string list **)
+
+let rule_names =
+  "cfer" :: ("cfer-batch" :: ("meek" :: ("meek-prf" :: ("mpls" :: ("qpq" :: ("scotland" :: ("warren" :: ("wigm" :: ("wigm-prf" :: ("wigm-prf-batch" :: []))))))))))
+
+(** val str_truthy : string -> bool **)
+
+let str_truthy s =
+  (* If this appears, you're using String internals. Please don't *)
+ (fun f0 f1 s ->
+    let l = String.length s in
+    if l = 0 then f0 () else f1 (String.get s 0) (String.sub s 1 (l-1)))
+
+    (fun _ -> false)
+    (fun _ _ -> true)
+    s
+
+(** val parse_step :
+    (oval dict * string option) -> string -> (oval dict * string option) res **)
+
+let parse_step acc opt =
+  let (options, path) = acc in
+  (match split_eq opt "" with
+   | [] -> Ok acc
+   | a :: l ->
+     (match l with
+      | [] ->
+        if str_in a arithmetic_names
+        then Ok ((dset "arithmetic" (VStr a) options), path)
+        else if str_in a rule_names
+             then Ok ((dset "rule" (VStr a) options), path)
+             else if str_in a ("report" :: ("dump" :: ("json" :: [])))
+                  then Ok ((dset a (VBool true) options), path)
+                  else (match path with
+                        | Some p ->
+                          if str_truthy p
+                          then Raise UsageError
+                          else Ok ((dset "path" (VStr a) options), (Some a))
+                        | None ->
+                          Ok ((dset "path" (VStr a) options), (Some a)))
+      | b :: _ ->
+        let lb = str_lower b in
+        if str_in lb ("false" :: ("no" :: []))
+        then Ok ((dset a (VBool false) options), path)
+        else if str_in lb ("true" :: ("yes" :: []))
+             then Ok ((dset a (VBool true) options), path)
+             else Ok ((dset a (VStr b) options), path)))
+
+(** val parse_loop :
+    string list -> (oval dict * string option) -> oval dict res **)
+
+let rec parse_loop opts0 acc =
+  match opts0 with
+  | [] -> Ok (fst acc)
+  | opt :: t0 ->
+    (match parse_step acc opt with
+     | Ok acc' -> parse_loop t0 acc'
+     | Raise e -> Raise e)
+
+(** val parse0 : string list -> oval dict res **)
+
+let parse0 opts0 =
+  parse_loop opts0 ([], None)
+
+type ('s, 'a) sM = 's -> 'a res * 's
+
+(** val sret : 'a2 -> ('a1, 'a2) sM **)
+
+let sret a s =
+  ((Ok a), s)
+
+(** val sbind : ('a1, 'a2) sM -> ('a2 -> ('a1, 'a3) sM) -> ('a1, 'a3) sM **)
+
+let sbind m f s =
+  let (r, s') = m s in
+  (match r with
+   | Ok a -> f a s'
+   | Raise e -> ((Raise e), s'))
+
+(** val slift : 'a2 res -> ('a1, 'a2) sM **)
+
+let slift r s =
+  (r, s)
+
+(** val sget : ('a1 -> 'a2) -> ('a1, 'a2) sM **)
+
+let sget f s =
+  ((Ok (f s)), s)
+
+type ruleparams = { rp_name : oval option; rp_integer_quota : oval option;
+                    rp_defeat_batch : oval option; rp_warren : oval option;
+                    rp_omega10 : oval option }
+
+type rulecls =
+| KWigm
+| KWigmPrf
+| KCfer
+| KScotland
+| KMpls
+| KMeek
+| KMeekPrf
+| KQpq
+
+(** val rule_by_name : string -> rulecls option **)
+
+let rule_by_name s =
+  if str_in s ("wigm" :: [])
+  then Some KWigm
+  else if str_in s ("wigm-prf" :: ("wigm-prf-batch" :: []))
+       then Some KWigmPrf
+       else if str_in s ("cfer" :: ("cfer-batch" :: []))
+            then Some KCfer
+            else if str_in s ("scotland" :: [])
+                 then Some KScotland
+                 else if str_in s ("mpls" :: [])
+                      then Some KMpls
+                      else if str_in s ("meek" :: ("warren" :: []))
+                           then Some KMeek
+                           else if str_in s ("meek-prf" :: [])
+                                then Some KMeekPrf
+                                else if str_in s ("qpq" :: [])
+                                     then Some KQpq
+                                     else None
+
+(** val getopt_m : string -> (store, oval) sM **)
+
+let getopt_m k =
+  sget (fun o -> getopt o k)
+
+(** val endswith_batch : oval -> oval res **)
+
+let endswith_batch = function
+| VStr s -> Ok (VBool (str_endswith s "batch"))
+| _ -> Raise AttributeError
+
+(** val vs : string -> oval **)
+
+let vs s =
+  VStr s
+
+(** val wigm_options : (store, ruleparams) sM **)
+
+let wigm_options =
+  sbind (setopt "arithmetic" (vs "guarded") false []) (fun a ->
+    sbind
+      (if oval_eqb a (vs "guarded")
+       then sbind
+              (setopt "precision" (VInt (Zpos (XO (XI (XO (XO XH)))))) false
+                []) (fun _ ->
+              sbind (getopt_m "precision") (fun p ->
+                sbind (slift (py_floordiv_int p (Zpos (XO XH)))) (fun h ->
+                  sbind (setopt "guard" h false []) (fun _ -> sret ()))))
+       else sbind (getopt_m "arithmetic") (fun a2 ->
+              if oval_eqb a2 (vs "fixed")
+              then sbind
+                     (setopt "precision" (VInt (Zpos (XI (XO (XO XH)))))
+                       false []) (fun _ -> sret ())
+              else sret ())) (fun _ ->
+      sbind
+        (setopt "integer_quota" (VBool false) false ((VBool true) :: ((VBool
+          false) :: []))) (fun iq ->
+        sbind
+          (setopt "defeat_batch" (vs "none") false
+            ((vs "none") :: ((vs "zero") :: []))) (fun db ->
+          sret { rp_name = (Some (vs "wigm")); rp_integer_quota = (Some iq);
+            rp_defeat_batch = (Some db); rp_warren = None; rp_omega10 = None }))))
+
+(** val prf_options : z -> (store, ruleparams) sM **)
+
+let prf_options precision =
+  sbind (getopt_m "rule") (fun name ->
+    sbind (slift (endswith_batch name)) (fun db ->
+      sbind (setopt "arithmetic" (vs "fixed") true []) (fun _ ->
+        sbind (setopt "precision" (VInt precision) true []) (fun _ ->
+          sbind (setopt "display" (VInt precision) true []) (fun _ ->
+            sret { rp_name = (Some name); rp_integer_quota = None;
+              rp_defeat_batch = (Some db); rp_warren = None; rp_omega10 =
+              None })))))
+
+(** val statute_fixed_options : string -> z -> (store, ruleparams) sM **)
+
+let statute_fixed_options rname precision =
+  sbind (setopt "arithmetic" (vs "fixed") true []) (fun _ ->
+    sbind (setopt "precision" (VInt precision) true []) (fun _ ->
+      sbind (setopt "display" (VInt precision) true []) (fun _ ->
+        sret { rp_name = (Some (vs rname)); rp_integer_quota = None;
+          rp_defeat_batch = None; rp_warren = None; rp_omega10 = None })))
+
+(** val meek_options : (store, ruleparams) sM **)
+
+let meek_options =
+  sbind (getopt_m "rule") (fun name ->
+    let warren = VBool (oval_eqb name (vs "warren")) in
+    sbind (setopt "arithmetic" (vs "guarded") false []) (fun a ->
+      sbind
+        (if oval_eqb a (vs "guarded")
+         then sbind
+                (setopt "precision" (VInt (Zpos (XO (XI (XO (XO XH))))))
+                  false []) (fun p ->
+                sbind (slift (py_floordiv_int p (Zpos (XO XH)))) (fun h ->
+                  sbind (setopt "guard" h false []) (fun _ ->
+                    sbind (slift (py_floordiv_int p (Zpos (XO XH))))
+                      (fun h2 -> setopt "omega" h2 false []))))
+         else if oval_eqb a (vs "fixed")
+              then sbind
+                     (setopt "precision" (VInt (Zpos (XI (XO (XO XH)))))
+                       false []) (fun p ->
+                     sbind (slift (py_mul2_floordiv3 p)) (fun h ->
+                       setopt "omega" h false []))
+              else if oval_eqb a (vs "rational")
+                   then setopt "omega" (VInt (Zpos (XO (XI (XO XH))))) false
+                          []
+                   else sret VNone) (fun om ->
+        sbind
+          (setopt "defeat_batch" (vs "safe") false
+            ((vs "none") :: ((vs "safe") :: []))) (fun db ->
+          sret { rp_name = (Some name); rp_integer_quota = None;
+            rp_defeat_batch = (Some db); rp_warren = (Some warren);
+            rp_omega10 = (Some om) }))))
+
+(** val meek_prf_options : (store, ruleparams) sM **)
+
+let meek_prf_options =
+  sbind (setopt "arithmetic" (vs "fixed") true []) (fun _ ->
+    sbind (setopt "precision" (VInt (Zpos (XI (XO (XO XH))))) true [])
+      (fun _ ->
+      sbind (setopt "display" (VInt (Zpos (XI (XO (XO XH))))) true [])
+        (fun _ ->
+        sbind (setopt "omega" (VInt (Zpos (XO (XI XH)))) true []) (fun _ ->
+          sret { rp_name = (Some (vs "meek-prf")); rp_integer_quota = None;
+            rp_defeat_batch = None; rp_warren = None; rp_omega10 = (Some
+            (VInt (Zpos (XO (XI XH))))) }))))
+
+(** val qpq_options : (store, ruleparams) sM **)
+
+let qpq_options =
+  sbind (setopt "arithmetic" (vs "guarded") true []) (fun _ ->
+    sbind (setopt "precision" (VInt (Zpos (XI (XO (XO XH))))) true [])
+      (fun _ ->
+      sbind (setopt "guard" (VInt (Zpos (XI (XO (XO XH))))) true [])
+        (fun _ ->
+        sbind (setopt "display" (VInt (Zpos (XI (XO (XO XH))))) true [])
+          (fun _ ->
+          sret { rp_name = (Some (vs "qpq")); rp_integer_quota = None;
+            rp_defeat_batch = None; rp_warren = None; rp_omega10 = None }))))
+
+(** val rule_options : rulecls -> (store, ruleparams) sM **)
+
+let rule_options = function
+| KWigm -> wigm_options
+| KWigmPrf -> prf_options (Zpos (XO (XO XH)))
+| KCfer -> prf_options (Zpos (XI (XO XH)))
+| KScotland -> statute_fixed_options "scotland" (Zpos (XI (XO XH)))
+| KMpls -> statute_fixed_options "mpls" (Zpos (XO (XO XH)))
+| KMeek -> meek_options
+| KMeekPrf -> meek_prf_options
+| KQpq -> qpq_options
+
+type acls =
+| AFixed
+| AGuarded
+| ARational
+
+(** val arithmetic_dispatch : oval -> acls res **)
+
+let arithmetic_dispatch a =
+  if oval_eqb a (vs "rational")
+  then Ok ARational
+  else if (||) (oval_eqb a (vs "fixed")) (oval_eqb a (vs "integer"))
+       then Ok AFixed
+       else if oval_eqb a (vs "guarded")
+            then Ok AGuarded
+            else Raise ArithmeticValuesError
+
+type field =
+| FxName
+| FxInfo
+| FxEpsilon
+| FxPrecision
+| FxDisplay
+| FxScale
+| FxDfmt
+| FxScaled
+| FxScaledd
+| FxScaledr
+| GdPrecision
+| GdGuard
+| GdDisplay
+| GdScale
+| GdScalep
+| GdScaleg
+| GdScaled
+| GdScaledd
+| GdScaledr
+| GdScaledg
+| GdGeps
+| GdMaxDiff
+| GdMinDiff
+| GdDfmt
+| GdInfo
+| GdQuasiExact
+| GdExact
+| GdEpsilon
+| RtDp
+| RtDps
+| RtDpr
+| RtDfmt
+
+(** val all_fields : field list **)
+
+let all_fields =
+  FxName :: (FxInfo :: (FxEpsilon :: (FxPrecision :: (FxDisplay :: (FxScale :: (FxDfmt :: (FxScaled :: (FxScaledd :: (FxScaledr :: (GdPrecision :: (GdGuard :: (GdDisplay :: (GdScale :: (GdScalep :: (GdScaleg :: (GdScaled :: (GdScaledd :: (GdScaledr :: (GdScaledg :: (GdGeps :: (GdMaxDiff :: (GdMinDiff :: (GdDfmt :: (GdInfo :: (GdQuasiExact :: (GdExact :: (GdEpsilon :: (RtDp :: (RtDps :: (RtDpr :: (RtDfmt :: [])))))))))))))))))))))))))))))))
+
+(** val field_idx : field -> z **)
+
+let field_idx = function
+| FxName -> Z0
+| FxInfo -> Zpos XH
+| FxEpsilon -> Zpos (XO XH)
+| FxPrecision -> Zpos (XI XH)
+| FxDisplay -> Zpos (XO (XO XH))
+| FxScale -> Zpos (XI (XO XH))
+| FxDfmt -> Zpos (XO (XI XH))
+| FxScaled -> Zpos (XI (XI XH))
+| FxScaledd -> Zpos (XO (XO (XO XH)))
+| FxScaledr -> Zpos (XI (XO (XO XH)))
+| GdPrecision -> Zpos (XO (XI (XO XH)))
+| GdGuard -> Zpos (XI (XI (XO XH)))
+| GdDisplay -> Zpos (XO (XO (XI XH)))
+| GdScale -> Zpos (XI (XO (XI XH)))
+| GdScalep -> Zpos (XO (XI (XI XH)))
+| GdScaleg -> Zpos (XI (XI (XI XH)))
+| GdScaled -> Zpos (XO (XO (XO (XO XH))))
+| GdScaledd -> Zpos (XI (XO (XO (XO XH))))
+| GdScaledr -> Zpos (XO (XI (XO (XO XH))))
+| GdScaledg -> Zpos (XI (XI (XO (XO XH))))
+| GdGeps -> Zpos (XO (XO (XI (XO XH))))
+| GdMaxDiff -> Zpos (XI (XO (XI (XO XH))))
+| GdMinDiff -> Zpos (XO (XI (XI (XO XH))))
+| GdDfmt -> Zpos (XI (XI (XI (XO XH))))
+| GdInfo -> Zpos (XO (XO (XO (XI XH))))
+| GdQuasiExact -> Zpos (XI (XO (XO (XI XH))))
+| GdExact -> Zpos (XO (XI (XO (XI XH))))
+| GdEpsilon -> Zpos (XI (XI (XO (XI XH))))
+| RtDp -> Zpos (XO (XO (XI (XI XH))))
+| RtDps -> Zpos (XI (XO (XI (XI XH))))
+| RtDpr -> Zpos (XO (XI (XI (XI XH))))
+| RtDfmt -> Zpos (XI (XI (XI (XI XH))))
+
+(** val field_eqb : field -> field -> bool **)
+
+let field_eqb a b =
+  Z.eqb (field_idx a) (field_idx b)
+
+type fv =
+| FZ of z
+| FS of string
+| FB of bool
+| FO of oval
+| FFloat
+
+type gstate = field -> fv option
+
+(** val g_init : gstate **)
+
+let g_init _ =
+  None
+
+(** val gset : field -> fv -> gstate -> gstate **)
+
+let gset f v g f' =
+  if field_eqb f f' then Some v else g f'
+
+type wlog = (field * fv) list
+
+(** val apply_log : wlog -> gstate -> gstate **)
+
+let apply_log l g =
+  fold_left (fun g0 fv0 -> gset (fst fv0) (snd fv0) g0) l g
+
+(** val getZ : gstate -> field -> z **)
+
+let getZ g f =
+  match g f with
+  | Some f0 -> (match f0 with
+                | FZ z0 -> z0
+                | _ -> Z0)
+  | None -> Z0
+
+(** val getS : gstate -> field -> string **)
+
+let getS g f =
+  match g f with
+  | Some f0 -> (match f0 with
+                | FS s -> s
+                | _ -> "")
+  | None -> ""
+
+(** val getB : gstate -> field -> bool **)
+
+let getB g f =
+  match g f with
+  | Some f0 -> (match f0 with
+                | FB b -> b
+                | _ -> true)
+  | None -> true
+
+type 'a wM = store -> ('a res * store) * wlog
+
+(** val wret : 'a1 -> 'a1 wM **)
+
+let wret a o =
+  (((Ok a), o), [])
+
+(** val wraise : exn -> 'a1 wM **)
+
+let wraise e o =
+  (((Raise e), o), [])
+
+(** val wbind : 'a1 wM -> ('a1 -> 'a2 wM) -> 'a2 wM **)
+
+let wbind m k o =
+  let (p, l) = m o in
+  let (r, o') = p in
+  (match r with
+   | Ok a -> let (p0, l') = k a o' in (p0, (app l l'))
+   | Raise e -> (((Raise e), o'), l))
+
+(** val w_op : (store, 'a1) sM -> 'a1 wM **)
+
+let w_op m o =
+  (((fst (m o)), (snd (m o))), [])
+
+(** val wlift : 'a1 res -> 'a1 wM **)
+
+let wlift r o =
+  ((r, o), [])
+
+(** val wr : field -> fv -> unit wM **)
+
+let wr f v o =
+  (((Ok ()), o), ((f, v) :: []))
+
+(** val wtell : wlog -> unit wM **)
+
+let wtell l o =
+  (((Ok ()), o), l)
+
+(** val wwhen_raise : bool -> exn -> unit wM **)
+
+let wwhen_raise b e =
+  if b then wraise e else wret ()
+
+type world = store * gstate
+
+(** val run_w : 'a1 wM -> world -> 'a1 res * world **)
+
+let run_w m w =
+  let (p, l) = m (fst w) in
+  let (r, o') = p in (r, (o', (apply_log l (snd w))))
+
+(** val usage_int : oval -> z res **)
+
+let usage_int v =
+  match py_int0 v with
+  | Ok a -> Ok a
+  | Raise e -> (match e with
+                | ValueError -> Raise UsageError
+                | x -> Raise x)
+
+(** val fixed_tail : string -> z -> z -> wlog **)
+
+let fixed_tail name p display =
+  (FxScale, (FZ (Z.pow (Zpos (XO (XI (XO XH)))) p))) :: ((FxDisplay, (FZ
+    display)) :: ((FxScaled, (FZ
+    (Z.pow (Zpos (XO (XI (XO XH)))) display))) :: ((FxScaledd, (FZ
+    (Z.pow (Zpos (XO (XI (XO XH)))) (Z.sub p display)))) :: ((FxScaledr, (FZ
+    (Z.div (Z.pow (Zpos (XO (XI (XO XH)))) (Z.sub p display)) (Zpos (XO XH))))) :: ((FxEpsilon,
+    (FZ (Zpos XH))) :: ((FxDfmt, (FS
+    ((^) "%d.%0" ((^) (string_of_Z display) "d")))) :: ((FxInfo, (FS
+    (if (=) name "integer"
+     then "integer arithmetic"
+     else if negb (Z.eqb display p)
+          then (^) "fixed-point decimal arithmetic ("
+                 ((^) (string_of_Z p)
+                   ((^) " places, " ((^) (string_of_Z display) " displayed)")))
+          else (^) "fixed-point decimal arithmetic ("
+                 ((^) (string_of_Z p) " places)")))) :: [])))))))
+
+(** val initialize_fixed : unit wM **)
+
+let initialize_fixed =
+  wbind (w_op (getopt_m "arithmetic")) (fun arithmetic ->
+    wbind
+      (wwhen_raise
+        (negb
+          ((||) (oval_eqb arithmetic (vs "fixed"))
+            (oval_eqb arithmetic (vs "integer")))) UsageError) (fun _ ->
+      wbind
+        (if oval_eqb arithmetic (vs "integer")
+         then w_op (setopt "precision" (VInt Z0) true [])
+         else w_op (getopt_m "precision")) (fun precision ->
+        let name = if oval_eqb precision (VInt Z0) then "integer" else "fixed"
+        in
+        wbind (wr FxName (FS name)) (fun _ ->
+          wbind (wlift (usage_int precision)) (fun p ->
+            wbind (wr FxPrecision (FZ p)) (fun _ ->
+              wbind
+                (wwhen_raise
+                  ((||) (Z.ltb p Z0)
+                    (negb ((=) (string_of_Z p) (py_str precision))))
+                  UsageError) (fun _ ->
+                wbind (w_op (getopt_m "display")) (fun d0 ->
+                  wbind
+                    (if is_none d0
+                     then wbind (w_op (setopt "display" (VInt p) false []))
+                            (fun _ -> wret ())
+                     else wret ()) (fun _ ->
+                    wbind (w_op (getopt_m "display")) (fun display ->
+                      wbind (wlift (usage_int display)) (fun display0 ->
+                        let display1 =
+                          if (||) (Z.ltb display0 Z0) (Z.ltb p display0)
+                          then p
+                          else display0
+                        in
+                        wtell (fixed_tail name p display1))))))))))))
+
+(** val checked_int_attr : field -> oval -> z wM **)
+
+let checked_int_attr f v =
+  wbind (wlift (usage_int v)) (fun x ->
+    wbind (wr f (FZ x)) (fun _ ->
+      wbind
+        (wwhen_raise
+          ((||) (Z.ltb x Z0) (negb ((=) (string_of_Z x) (py_str v))))
+          UsageError) (fun _ -> wret x)))
+
+(** val guarded_tail : z -> z -> z -> wlog **)
+
+let guarded_tail p gd d1 =
+  let d = if Z.ltb (Z.add p gd) d1 then Z.add p gd else d1 in
+  let geps = Z.div (Z.pow (Zpos (XO (XI (XO XH)))) gd) (Zpos (XO XH)) in
+  app ((GdScalep, (FZ (Z.pow (Zpos (XO (XI (XO XH)))) p))) :: ((GdScaleg, (FZ
+    (Z.pow (Zpos (XO (XI (XO XH)))) gd))) :: ((GdScale, (FZ
+    (Z.pow (Zpos (XO (XI (XO XH)))) (Z.add p gd)))) :: [])))
+    (app
+      (if Z.ltb (Z.add p gd) d1
+       then (GdDisplay, (FZ (Z.add p gd))) :: []
+       else [])
+      (app ((GdScaledd, (FZ
+        (Z.pow (Zpos (XO (XI (XO XH)))) (Z.sub (Z.add gd p) d)))) :: ((GdScaledr,
+        (FZ
+        (Z.div (Z.pow (Zpos (XO (XI (XO XH)))) (Z.sub (Z.add gd p) d)) (Zpos
+          (XO XH))))) :: ((GdScaled, (FZ
+        (Z.pow (Zpos (XO (XI (XO XH)))) d))) :: [])))
+        (app
+          (if Z.ltb p d
+           then (GdScaledg, (FZ
+                  (Z.pow (Zpos (XO (XI (XO XH)))) (Z.sub d p)))) :: []
+           else [])
+          (app ((GdGeps, (FZ geps)) :: [])
+            (app
+              (if Z.eqb geps Z0 then (GdGeps, (FZ (Zpos XH))) :: [] else [])
+              (app ((GdMaxDiff, (FZ Z0)) :: ((GdMinDiff, (FZ
+                (Z.mul (Z.pow (Zpos (XO (XI (XO XH)))) (Z.add p gd)) (Zpos
+                  (XO (XO (XI (XO (XO (XI XH)))))))))) :: []))
+                (app ((GdDfmt, (FS
+                  (if Z.leb d p
+                   then (^) "%d.%0" ((^) (string_of_Z d) "d")
+                   else (^) "%d.%0"
+                          ((^) (string_of_Z p)
+                            ((^) "d_%0" ((^) (string_of_Z (Z.sub d p)) "d")))))) :: [])
+                  (app ((GdInfo, (FS
+                    (if negb (Z.eqb d p)
+                     then (^)
+                            "guarded-precision fixed-point decimal arithmetic ("
+                            ((^) (string_of_Z p)
+                              ((^) "+"
+                                ((^) (string_of_Z gd)
+                                  ((^) " places; "
+                                    ((^) (string_of_Z d) " displayed)")))))
+                     else (^)
+                            "guarded-precision fixed-point decimal arithmetic ("
+                            ((^) (string_of_Z p)
+                              ((^) "+" ((^) (string_of_Z gd) " places)")))))) :: [])
+                    (if Z.eqb gd Z0
+                     then (GdQuasiExact, (FB false)) :: ((GdExact, (FB
+                            false)) :: ((GdEpsilon, (FZ (Zpos XH))) :: []))
+                     else (GdQuasiExact, (FB true)) :: ((GdExact, (FB
+                            true)) :: []))))))))))
+
+(** val initialize_guarded : unit wM **)
+
+let initialize_guarded =
+  wbind (w_op (getopt_m "arithmetic")) (fun arithmetic ->
+    wbind
+      (wwhen_raise (negb (oval_eqb arithmetic (vs "guarded"))) UsageError)
+      (fun _ ->
+      wbind (w_op (getopt_m "precision")) (fun precision ->
+        wbind (checked_int_attr GdPrecision precision) (fun p ->
+          wbind (w_op (getopt_m "guard")) (fun g0 ->
+            wbind
+              (if is_none g0
+               then wbind (w_op (setopt "guard" (VInt p) false [])) (fun _ ->
+                      wret ())
+               else wret ()) (fun _ ->
+              wbind (w_op (getopt_m "guard")) (fun guard ->
+                wbind (checked_int_attr GdGuard guard) (fun gd ->
+                  wbind (w_op (getopt_m "display")) (fun d0 ->
+                    wbind
+                      (if is_none d0
+                       then wbind (w_op (setopt "display" (VInt p) false []))
+                              (fun _ -> wret ())
+                       else wret ()) (fun _ ->
+                      wbind (w_op (getopt_m "display")) (fun display ->
+                        wbind (checked_int_attr GdDisplay display) (fun d1 ->
+                          wtell (guarded_tail p gd d1)))))))))))))
+
+(** val pow10_oval : oval -> fv res **)
+
+let pow10_oval v =
+  match oval_num v with
+  | Some z0 ->
+    if Z.ltb z0 Z0
+    then Ok FFloat
+    else Ok (FZ (Z.pow (Zpos (XO (XI (XO XH)))) z0))
+  | None -> Raise TypeError
+
+(** val initialize_rational : unit wM **)
+
+let initialize_rational =
+  wbind (w_op (getopt_m "display")) (fun d0 ->
+    wbind
+      (if is_none d0
+       then wbind
+              (w_op
+                (setopt "display" (VInt (Zpos (XO (XO (XI XH))))) false []))
+              (fun _ -> wret ())
+       else wret ()) (fun _ ->
+      wbind (w_op (getopt_m "display")) (fun dp ->
+        wbind (wr RtDp (FO dp)) (fun _ ->
+          wbind (wlift (pow10_oval dp)) (fun dps ->
+            wbind (wr RtDps dps) (fun _ ->
+              match dps with
+              | FZ n0 ->
+                wbind (wr RtDpr (FZ (Z.mul n0 (Zpos (XO XH))))) (fun _ ->
+                  wr RtDfmt (FS ((^) "%d.%0" ((^) (py_str dp) "d"))))
+              | _ -> wraise TypeError))))))
+
+(** val arithmetic_class : acls wM **)
+
+let arithmetic_class =
+  wbind (w_op (setopt "arithmetic" (vs "guarded") false [])) (fun a ->
+    wbind (wlift (arithmetic_dispatch a)) (fun c ->
+      match c with
+      | AFixed -> wbind initialize_fixed (fun _ -> wret AFixed)
+      | AGuarded -> wbind initialize_guarded (fun _ -> wret AGuarded)
+      | ARational -> wbind initialize_rational (fun _ -> wret ARational)))
+
+(** val election_setup_w : ((rulecls * ruleparams) * acls) wM **)
+
+let election_setup_w =
+  wbind (w_op (getopt_m "rule")) (fun rulename ->
+    wbind (wwhen_raise (is_none rulename) ElectionError) (fun _ ->
+      match match rulename with
+            | VNone -> None
+            | VBool _ -> None
+            | VInt _ -> None
+            | VStr s -> rule_by_name s with
+      | Some k ->
+        wbind (w_op (rule_options k)) (fun params ->
+          wbind arithmetic_class (fun c -> wret ((k, params), c)))
+      | None -> wraise ElectionError))
+
+(** val election_setup :
+    world -> ((rulecls * ruleparams) * acls) res * world **)
+
+let election_setup w =
+  run_w election_setup_w w
+
+(** val fixed_cls_of : gstate -> fixed_cls **)
+
+let fixed_cls_of g =
+  { f_precision = (getZ g FxPrecision); f_display = (getZ g FxDisplay);
+    f_scale = (getZ g FxScale); f_scaled = (getZ g FxScaled); f_scaledd =
+    (getZ g FxScaledd); f_scaledr = (getZ g FxScaledr) }
+
+(** val guarded_cls_of : gstate -> guarded_cls **)
+
+let guarded_cls_of g =
+  { g_precision = (getZ g GdPrecision); g_guard = (getZ g GdGuard);
+    g_display = (getZ g GdDisplay); g_scale = (getZ g GdScale); g_scalep =
+    (getZ g GdScalep); g_scaleg = (getZ g GdScaleg); g_scaled =
+    (getZ g GdScaled); g_scaledd = (getZ g GdScaledd); g_scaledr =
+    (getZ g GdScaledr); g_scaledg = (getZ g GdScaledg); g_geps =
+    (getZ g GdGeps) }
+
+(** val is_fx : field -> bool **)
+
+let is_fx f =
+  Z.ltb (field_idx f) (Zpos (XO (XI (XO XH))))
+
+(** val is_gd : field -> bool **)
+
+let is_gd f =
+  (&&) (Z.leb (Zpos (XO (XI (XO XH)))) (field_idx f))
+    (Z.ltb (field_idx f) (Zpos (XO (XO (XI (XI XH))))))
+
+(** val is_rt : field -> bool **)
+
+let is_rt f =
+  Z.leb (Zpos (XO (XO (XI (XI XH))))) (field_idx f)
+
+(** val reads : acls -> gstate -> field -> bool **)
+
+let reads c g f =
+  match c with
+  | AFixed -> is_fx f
+  | AGuarded ->
+    (match f with
+     | GdScaledg -> Z.ltb (getZ g GdPrecision) (getZ g GdDisplay)
+     | GdEpsilon -> negb (getB g GdExact)
+     | _ -> is_gd f)
+  | ARational -> is_rt f
+
+(** val hex_digit : nat -> char **)
+
+let hex_digit n0 =
+  ascii_of_nat
+    (if Nat.ltb n0 (S (S (S (S (S (S (S (S (S (S O))))))))))
+     then add (S (S (S (S (S (S (S (S (S (S (S (S (S (S (S (S (S (S (S (S (S
+            (S (S (S (S (S (S (S (S (S (S (S (S (S (S (S (S (S (S (S (S (S (S
+            (S (S (S (S (S O))))))))))))))))))))))))))))))))))))))))))))))))
+            n0
+     else add (S (S (S (S (S (S (S (S (S (S (S (S (S (S (S (S (S (S (S (S (S
+            (S (S (S (S (S (S (S (S (S (S (S (S (S (S (S (S (S (S (S (S (S (S
+            (S (S (S (S (S (S (S (S (S (S (S (S (S (S (S (S (S (S (S (S (S (S
+            (S (S (S (S (S (S (S (S (S (S (S (S (S (S (S (S (S (S (S (S (S (S
+            O)))))))))))))))))))))))))))))))))))))))))))))))))))))))))))))))))))))))))))))))))))))))
+            n0)
+
+(** val hex_of : string -> string **)
+
+let rec hex_of s =
+  (* If this appears, you're using String internals. Please don't *)
+ (fun f0 f1 s ->
+    let l = String.length s in
+    if l = 0 then f0 () else f1 (String.get s 0) (String.sub s 1 (l-1)))
+
+    (fun _ -> "")
+    (fun c t0 ->
+    let n0 = nat_of_ascii c in
+    (* If this appears, you're using String internals. Please don't *)
+  (fun (c, s) -> String.make 1 c ^ s)
+
+    ((hex_digit
+       (Nat.div n0 (S (S (S (S (S (S (S (S (S (S (S (S (S (S (S (S
+         O)))))))))))))))))),
+    ((* If this appears, you're using String internals. Please don't *)
+  (fun (c, s) -> String.make 1 c ^ s)
+
+    ((hex_digit
+       (Nat.modulo n0 (S (S (S (S (S (S (S (S (S (S (S (S (S (S (S (S
+         O)))))))))))))))))), (hex_of t0)))))
+    s
+
+(** val show_oval : oval -> string **)
+
+let show_oval = function
+| VNone -> "N"
+| VBool b -> if b then "B1" else "B0"
+| VInt z0 -> (^) "I" (string_of_Z z0)
+| VStr s -> (^) "S" (hex_of s)
+
+(** val show_ooval : oval option -> string **)
+
+let show_ooval = function
+| Some x -> show_oval x
+| None -> "-"
+
+(** val join0 : string -> string list -> string **)
+
+let rec join0 sep = function
+| [] -> ""
+| x :: t0 ->
+  (match t0 with
+   | [] -> x
+   | _ :: _ -> (^) x ((^) sep (join0 sep t0)))
+
+(** val show_dict : ('a1 -> string) -> 'a1 dict -> string **)
+
+let show_dict sh d =
+  join0 ";"
+    (map (fun k ->
+      (^) k ((^) "=" (match dget k d with
+                      | Some v -> sh v
+                      | None -> "?"))) (sort_set (dkeys d)))
+
+(** val show_tuple : oval list -> string **)
+
+let show_tuple l =
+  (^) "(" ((^) (join0 "," (map show_oval l)) ")")
+
+(** val lf1 : string **)
+
+let lf1 =
+  (* If this appears, you're using String internals. Please don't *)
+  (fun (c, s) -> String.make 1 c ^ s)
+
+    ((ascii_of_nat (S (S (S (S (S (S (S (S (S (S O))))))))))), "")
+
+(** val known_keys : string list **)
+
+let known_keys =
+  "arithmetic" :: ("precision" :: ("guard" :: ("display" :: ("omega" :: ("integer_quota" :: ("defeat_batch" :: ("rule" :: ("path" :: []))))))))
+
+(** val show_store : store -> string **)
+
+let show_store o =
+  let keys =
+    sort_set
+      (app known_keys
+        (app (dkeys o.o_cmd)
+          (app (dkeys o.o_file) (app (dkeys o.o_default) (dkeys o.o_force)))))
+  in
+  (^) "cmd: "
+    ((^) (show_dict show_oval o.o_cmd)
+      ((^) lf1
+        ((^) "file: "
+          ((^) (show_dict show_oval o.o_file)
+            ((^) lf1
+              ((^) "default: "
+                ((^) (show_dict show_oval o.o_default)
+                  ((^) lf1
+                    ((^) "force: "
+                      ((^) (show_dict show_oval o.o_force)
+                        ((^) lf1
+                          ((^) "allowed: "
+                            ((^) (show_dict show_tuple o.o_allowed)
+                              ((^) lf1
+                                ((^) "getopt: "
+                                  ((^)
+                                    (join0 ";"
+                                      (map (fun k ->
+                                        (^) k
+                                          ((^) "=" (show_oval (getopt o k))))
+                                        keys))
+                                    ((^) lf1
+                                      ((^) "unused: "
+                                        ((^) (join0 "," (unused o))
+                                          ((^) lf1
+                                            ((^) "overrides: "
+                                              ((^) (join0 "," (overrides o))
+                                                ((^) lf1
+                                                  ((^) "effective: "
+                                                    ((^)
+                                                      (show_dict show_oval
+                                                        (record o).rec_options)
+                                                      lf1)))))))))))))))))))))))))
+
+(** val field_name : field -> string **)
+
+let field_name = function
+| FxName -> "Fixed.name"
+| FxInfo -> "Fixed.info"
+| FxEpsilon -> "Fixed.epsilon"
+| FxPrecision -> "Fixed.precision"
+| FxDisplay -> "Fixed.display"
+| FxScale -> "Fixed.__scale"
+| FxDfmt -> "Fixed.__dfmt"
+| FxScaled -> "Fixed.__scaled"
+| FxScaledd -> "Fixed.__scaledd"
+| FxScaledr -> "Fixed.__scaledr"
+| GdPrecision -> "Guarded.precision"
+| GdGuard -> "Guarded.guard"
+| GdDisplay -> "Guarded.display"
+| GdScale -> "Guarded.__scale"
+| GdScalep -> "Guarded.__scalep"
+| GdScaleg -> "Guarded.__scaleg"
+| GdScaled -> "Guarded.__scaled"
+| GdScaledd -> "Guarded.__scaledd"
+| GdScaledr -> "Guarded.__scaledr"
+| GdScaledg -> "Guarded.__scaledg"
+| GdGeps -> "Guarded.__geps"
+| GdMaxDiff -> "Guarded.maxDiff"
+| GdMinDiff -> "Guarded.minDiff"
+| GdDfmt -> "Guarded.__dfmt"
+| GdInfo -> "Guarded.info"
+| GdQuasiExact -> "Guarded.quasi_exact"
+| GdExact -> "Guarded.exact"
+| GdEpsilon -> "Guarded.epsilon"
+| RtDp -> "Rational.dp"
+| RtDps -> "Rational._dps"
+| RtDpr -> "Rational._dpr"
+| RtDfmt -> "Rational._dfmt"
+
+(** val body_default : field -> string **)
+
+let body_default = function
+| FxScaledd -> "<unset>"
+| GdScaledg -> "<unset>"
+| GdGeps -> "<unset>"
+| GdMaxDiff -> "<unset>"
+| GdMinDiff -> "<unset>"
+| GdQuasiExact -> "B1"
+| GdExact -> "B1"
+| GdEpsilon -> "<unset>"
+| _ -> "N"
+
+(** val show_fv : field -> fv -> string **)
+
+let show_fv f = function
+| FZ z0 ->
+  (match f with
+   | FxEpsilon -> (^) "V" (string_of_Z z0)
+   | GdEpsilon -> (^) "V" (string_of_Z z0)
+   | RtDpr -> (^) "1/" (string_of_Z z0)
+   | _ -> (^) "I" (string_of_Z z0))
+| FS s -> (^) "S" (hex_of s)
+| FB b -> if b then "B1" else "B0"
+| FO v2 -> show_oval v2
+| FFloat -> "<float>"
+
+(** val show_field : gstate -> field -> string **)
+
+let show_field g f =
+  (^) (field_name f)
+    ((^) "=" (match g f with
+              | Some v -> show_fv f v
+              | None -> body_default f))
+
+(** val acls_name : acls -> string **)
+
+let acls_name = function
+| AFixed -> "Fixed"
+| AGuarded -> "Guarded"
+| ARational -> "Rational"
+
+(** val rulecls_name : rulecls -> string **)
+
+let rulecls_name = function
+| KWigm -> "wigm"
+| KWigmPrf -> "wigm_prf"
+| KCfer -> "cfer"
+| KScotland -> "scotland"
+| KMpls -> "mpls"
+| KMeek -> "meek"
+| KMeekPrf -> "meek_prf"
+| KQpq -> "qpq"
+
+(** val showb01 : bool -> string **)
+
+let showb01 = function
+| true -> "B1"
+| false -> "B0"
+
+(** val show_arith : acls -> gstate -> string **)
+
+let show_arith c g =
+  (^) "arith: cls="
+    ((^) (acls_name c)
+      ((^)
+        (match c with
+         | AFixed ->
+           (^) " name="
+             ((^) (hex_of (getS g FxName))
+               ((^) " info="
+                 ((^) (hex_of (getS g FxInfo))
+                   ((^) " exact=B0 quasi_exact=B0 epsilon=V"
+                     (string_of_Z (getZ g FxEpsilon))))))
+         | AGuarded ->
+           (^) " name="
+             ((^) (hex_of "guarded")
+               ((^) " info="
+                 ((^) (hex_of (getS g GdInfo))
+                   ((^) " exact="
+                     ((^) (showb01 (getB g GdExact))
+                       ((^) " quasi_exact="
+                         ((^) (showb01 (getB g GdQuasiExact))
+                           ((^) " epsilon="
+                             (if getB g GdExact
+                              then "-"
+                              else (^) "V" (string_of_Z (getZ g GdEpsilon)))))))))))
+         | ARational ->
+           (^) " name="
+             ((^) (hex_of "rational")
+               ((^) " info="
+                 ((^) (hex_of "rational arithmetic")
+                   " exact=B1 quasi_exact=B0 epsilon=-")))) lf1))
+
+(** val show_resZ_o : z res -> string **)
+
+let show_resZ_o = function
+| Ok z0 -> string_of_Z z0
+| Raise e -> (^) "exn " (exn_name e)
+
+(** val show_probe : acls -> gstate -> (z * z) -> string **)
+
+let show_probe c g = function
+| (num, den) ->
+  (^) "probe "
+    ((^) (string_of_Z num)
+      ((^) "/"
+        ((^) (string_of_Z den)
+          ((^) ": "
+            ((^)
+              (match c with
+               | AFixed ->
+                 let st = fixed_cls_of g in
+                 (match dunder_truediv st (init st (OInt num) false) (OVal
+                          (init st (OInt den) false)) with
+                  | Ok r ->
+                    (^) "raw="
+                      ((^) (string_of_Z r) ((^) " str=" (fixed_str st r)))
+                  | Raise e -> (^) "exn " (exn_name e))
+               | AGuarded ->
+                 let st = guarded_cls_of g in
+                 (match dunder_truediv0 st (init0 st (OInt num) false) (OVal
+                          (init0 st (OInt den) false)) with
+                  | Ok r ->
+                    (^) "raw="
+                      ((^) (string_of_Z r) ((^) " str=" (guarded_str st r)))
+                  | Raise e -> (^) "exn " (exn_name e))
+               | ARational ->
+                 (match q_div (inject_Z num) (inject_Z den) with
+                  | Ok q0 ->
+                    (^) "raw="
+                      ((^) ((rational Z0).raw_repr (Obj.magic q0))
+                        ((^) " str="
+                          (match g RtDp with
+                           | Some f ->
+                             (match f with
+                              | FO v ->
+                                (match v with
+                                 | VBool b ->
+                                   if b
+                                   then "exn ValueError"
+                                   else (match rational_fmt Z0 q0 with
+                                         | Fmt2 (a, _) ->
+                                           (^) (string_of_Z a)
+                                             ".0.000000alsed"
+                                         | FmtNeg f0 ->
+                                           (match f0 with
+                                            | Fmt2 (a, _) ->
+                                              (^) "-"
+                                                ((^) (string_of_Z a)
+                                                  ".0.000000alsed")
+                                            | _ -> "?")
+                                         | _ -> "?")
+                                 | VInt d -> rational_str d q0
+                                 | _ -> "exn ValueError")
+                              | _ -> "exn ValueError")
+                           | None -> "exn ValueError")))
+                  | Raise e -> (^) "exn " (exn_name e))) lf1)))))
+
+(** val show_report : acls -> gstate -> string **)
+
+let show_report c g =
+  (^) "report: "
+    ((^)
+      (match c with
+       | AGuarded ->
+         guarded_report (guarded_cls_of g) (string_of_Z (getZ g GdMaxDiff))
+           (string_of_Z (getZ g GdMinDiff))
+       | _ -> "") lf1)
+
+(** val show_params : rulecls -> ruleparams -> string **)
+
+let show_params k p =
+  (^) "rule: cls="
+    ((^) (rulecls_name k)
+      ((^) " name="
+        ((^) (show_ooval p.rp_name)
+          ((^) " integer_quota="
+            ((^) (show_ooval p.rp_integer_quota)
+              ((^) " defeat_batch="
+                ((^) (show_ooval p.rp_defeat_batch)
+                  ((^) " warren="
+                    ((^) (show_ooval p.rp_warren)
+                      ((^) " omega10=" ((^) (show_ooval p.rp_omega10) lf1)))))))))))
+
+(** val rd_value : tok list -> (oval * tok list) option **)
+
+let rd_value = function
+| [] -> None
+| t0 :: t1 ->
+  (match t0 with
+   | TI z0 ->
+     (match z0 with
+      | Z0 -> Some (VNone, t1)
+      | Zpos p ->
+        (match p with
+         | XI p0 ->
+           (match p0 with
+            | XH ->
+              (match t1 with
+               | [] -> None
+               | t2 :: t3 ->
+                 (match t2 with
+                  | TI _ -> None
+                  | TS s -> Some ((VStr s), t3)))
+            | _ -> None)
+         | XO p0 ->
+           (match p0 with
+            | XH ->
+              (match t1 with
+               | [] -> None
+               | t2 :: t3 ->
+                 (match t2 with
+                  | TI z1 -> Some ((VInt z1), t3)
+                  | TS _ -> None))
+            | _ -> None)
+         | XH ->
+           (match t1 with
+            | [] -> None
+            | t2 :: t3 ->
+              (match t2 with
+               | TI b -> Some ((VBool (negb (Z.eqb b Z0))), t3)
+               | TS _ -> None)))
+      | Zneg _ -> None)
+   | TS _ -> None)
+
+(** val rd_n :
+    (tok list -> ('a1 * tok list) option) -> nat -> tok list -> ('a1
+    list * tok list) option **)
+
+let rec rd_n rd n0 l =
+  match n0 with
+  | O -> Some ([], l)
+  | S k ->
+    (match rd l with
+     | Some p ->
+       let (x, t0) = p in
+       (match rd_n rd k t0 with
+        | Some p0 -> let (xs, t') = p0 in Some ((x :: xs), t')
+        | None -> None)
+     | None -> None)
+
+(** val rd_counted :
+    (tok list -> ('a1 * tok list) option) -> tok list -> ('a1 list * tok
+    list) option **)
+
+let rd_counted rd = function
+| [] -> None
+| t0 :: t1 -> (match t0 with
+               | TI n0 -> rd_n rd (Z.to_nat n0) t1
+               | TS _ -> None)
+
+(** val rd_kv : tok list -> ((string * oval) * tok list) option **)
+
+let rd_kv = function
+| [] -> None
+| t0 :: t1 ->
+  (match t0 with
+   | TI _ -> None
+   | TS k ->
+     (match rd_value t1 with
+      | Some p -> let (v, t') = p in Some ((k, v), t')
+      | None -> None))
+
+(** val rd_dict : tok list -> (oval dict * tok list) option **)
+
+let rd_dict l =
+  match rd_counted rd_kv l with
+  | Some p -> let (kvs, t0) = p in Some ((dict_of_list kvs), t0)
+  | None -> None
+
+(** val rd_s : tok list -> (string * tok list) option **)
+
+let rd_s = function
+| [] -> None
+| t0 :: t1 -> (match t0 with
+               | TI _ -> None
+               | TS s -> Some (s, t1))
+
+(** val rd_nd : tok list -> ((z * z) * tok list) option **)
+
+let rd_nd = function
+| [] -> None
+| t0 :: l0 ->
+  (match t0 with
+   | TI a ->
+     (match l0 with
+      | [] -> None
+      | t1 :: t2 -> (match t1 with
+                     | TI b -> Some ((a, b), t2)
+                     | TS _ -> None))
+   | TS _ -> None)
+
+type filespec =
+| FDict of oval dict
+| FStrs of string list
+
+(** val rd_config : tok list -> ((oval dict * filespec) * tok list) option **)
+
+let rd_config l =
+  match rd_dict l with
+  | Some p ->
+    let (cmd0, l0) = p in
+    (match l0 with
+     | [] -> None
+     | t0 :: t1 ->
+       (match t0 with
+        | TI z0 ->
+          (match z0 with
+           | Z0 ->
+             (match rd_dict t1 with
+              | Some p0 -> let (f, t') = p0 in Some ((cmd0, (FDict f)), t')
+              | None -> None)
+           | Zpos p0 ->
+             (match p0 with
+              | XH ->
+                (match rd_counted rd_s t1 with
+                 | Some p1 ->
+                   let (ss, t') = p1 in Some ((cmd0, (FStrs ss)), t')
+                 | None -> None)
+              | _ -> None)
+           | Zneg _ -> None)
+        | TS _ -> None))
+  | None -> None
+
+(** val build_store : (oval dict * filespec) -> store res * store **)
+
+let build_store c =
+  let o = new_options (fst c) in
+  (match snd c with
+   | FDict f -> ((Ok (update_dict o f true)), o)
+   | FStrs ss ->
+     (match parse0 ss with
+      | Ok f -> ((Ok (update_dict o f true)), o)
+      | Raise e -> ((Raise e), o)))
+
+(** val run_one :
+    (oval dict * filespec) -> gstate -> (((rulecls * ruleparams) * acls)
+    res * store) * gstate **)
+
+let run_one c g =
+  let (r, o) = build_store c in
+  (match r with
+   | Ok o0 ->
+     let r0 = election_setup (o0, g) in
+     (((fst r0), (fst (snd r0))), (snd (snd r0)))
+   | Raise e -> (((Raise e), o), g))
+
+(** val show_hist_outcome :
+    nat -> ((rulecls * ruleparams) * acls) res -> string **)
+
+let show_hist_outcome i r =
+  (^) "hist "
+    ((^) (string_of_Z (Z.of_nat i))
+      ((^) ": "
+        ((^)
+          (match r with
+           | Ok a -> let (_, c) = a in (^) "ok " (acls_name c)
+           | Raise e -> (^) "exn " (exn_name e)) lf1)))
+
+(** val run_hist :
+    nat -> (oval dict * filespec) list -> gstate -> string -> string * gstate **)
+
+let rec run_hist i h g acc =
+  match h with
+  | [] -> (acc, g)
+  | c :: t0 ->
+    let (p, g') = run_one c g in
+    let (r, _) = p in run_hist (S i) t0 g' ((^) acc (show_hist_outcome i r))
+
+(** val run_setup :
+    (z * z) list -> (oval dict * filespec) list -> (oval dict * filespec) ->
+    string **)
+
+let run_setup probes h c =
+  let (htxt, g1) = run_hist O h g_init "" in
+  let (p, g2) = run_one c g1 in
+  let (r, o) = p in
+  (^) htxt
+    ((^) "outcome: "
+      ((^) (match r with
+            | Ok _ -> "ok"
+            | Raise e -> (^) "exn " (exn_name e))
+        ((^) lf1
+          ((^) (show_store o)
+            ((^)
+              (match r with
+               | Ok a0 ->
+                 let (p0, a) = a0 in
+                 let (k, p1) = p0 in
+                 (^) (show_params k p1)
+                   ((^) (show_arith a g2)
+                     ((^) "read: "
+                       ((^)
+                         (join0 ";"
+                           (map (show_field g2)
+                             (filter (reads a g2) all_fields)))
+                         ((^) lf1
+                           ((^)
+                             (fold_right (fun nd acc ->
+                               (^) (show_probe a g2 nd) acc) "" probes)
+                             (show_report a g2))))))
+               | Raise _ -> "")
+              ((^) "state: " (join0 ";" (map (show_field g2) all_fields))))))))
+
+(** val show_res_dict : oval dict res -> string **)
+
+let show_res_dict = function
+| Ok d -> (^) "ok " (show_dict show_oval d)
+| Raise e -> (^) "exn " (exn_name e)
+
+(** val run_options : tok list -> string **)
+
+let run_options = function
+| [] -> "badoptionscase"
+| t0 :: t1 ->
+  (match t0 with
+   | TI _ -> "badoptionscase"
+   | TS s ->
+     ((* If this appears, you're using String internals. Please don't *)
+ (fun f0 f1 s ->
+    let l = String.length s in
+    if l = 0 then f0 () else f1 (String.get s 0) (String.sub s 1 (l-1)))
+
+        (fun _ -> "badoptionscase")
+        (fun a s0 ->
+        (* If this appears, you're using Ascii internals. Please don't *)
+ (fun f c ->
+  let n = Char.code c in
+  let h i = (n land (1 lsl i)) <> 0 in
+  f (h 0) (h 1) (h 2) (h 3) (h 4) (h 5) (h 6) (h 7))
+          (fun b b0 b1 b2 b3 b4 b5 b6 ->
+          if b
+          then if b0
+               then if b1
+                    then "badoptionscase"
+                    else if b2
+                         then "badoptionscase"
+                         else if b3
+                              then if b4
+                                   then if b5
+                                        then if b6
+                                             then "badoptionscase"
+                                             else ((* If this appears, you're using String internals. Please don't *)
+ (fun f0 f1 s ->
+    let l = String.length s in
+    if l = 0 then f0 () else f1 (String.get s 0) (String.sub s 1 (l-1)))
+
+                                                     (fun _ ->
+                                                     "badoptionscase")
+                                                     (fun a0 s1 ->
+                                                     (* If this appears, you're using Ascii internals. Please don't *)
+ (fun f c ->
+  let n = Char.code c in
+  let h i = (n land (1 lsl i)) <> 0 in
+  f (h 0) (h 1) (h 2) (h 3) (h 4) (h 5) (h 6) (h 7))
+                                                       (fun b7 b8 b9 b10 b11 b12 b13 b14 ->
+                                                       if b7
+                                                       then if b8
+                                                            then "badoptionscase"
+                                                            else if b9
+                                                                 then 
+                                                                   if b10
+                                                                   then 
+                                                                    "badoptionscase"
+                                                                   else 
+                                                                    if b11
+                                                                    then 
+                                                                    "badoptionscase"
+                                                                    else 
+                                                                    if b12
+                                                                    then 
+                                                                    if b13
+                                                                    then 
+                                                                    if b14
+                                                                    then 
+                                                                    "badoptionscase"
+                                                                    else 
+                                                                    ((* If this appears, you're using String internals. Please don't *)
+ (fun f0 f1 s ->
+    let l = String.length s in
+    if l = 0 then f0 () else f1 (String.get s 0) (String.sub s 1 (l-1)))
+
+                                                                    (fun _ ->
+                                                                    "badoptionscase")
+                                                                    (fun a1 s2 ->
+                                                                    (* If this appears, you're using Ascii internals. Please don't *)
+ (fun f c ->
+  let n = Char.code c in
+  let h i = (n land (1 lsl i)) <> 0 in
+  f (h 0) (h 1) (h 2) (h 3) (h 4) (h 5) (h 6) (h 7))
+                                                                    (fun b15 b16 b17 b18 b19 b20 b21 b22 ->
+                                                                    if b15
+                                                                    then 
+                                                                    "badoptionscase"
+                                                                    else 
+                                                                    if b16
+                                                                    then 
+                                                                    "badoptionscase"
+                                                                    else 
+                                                                    if b17
+                                                                    then 
+                                                                    if b18
+                                                                    then 
+                                                                    "badoptionscase"
+                                                                    else 
+                                                                    if b19
+                                                                    then 
+                                                                    if b20
+                                                                    then 
+                                                                    if b21
+                                                                    then 
+                                                                    if b22
+                                                                    then 
+                                                                    "badoptionscase"
+                                                                    else 
+                                                                    ((* If this appears, you're using String internals. Please don't *)
+ (fun f0 f1 s ->
+    let l = String.length s in
+    if l = 0 then f0 () else f1 (String.get s 0) (String.sub s 1 (l-1)))
+
+                                                                    (fun _ ->
+                                                                    "badoptionscase")
+                                                                    (fun a2 s3 ->
+                                                                    (* If this appears, you're using Ascii internals. Please don't *)
+ (fun f c ->
+  let n = Char.code c in
+  let h i = (n land (1 lsl i)) <> 0 in
+  f (h 0) (h 1) (h 2) (h 3) (h 4) (h 5) (h 6) (h 7))
+                                                                    (fun b23 b24 b25 b26 b27 b28 b29 b30 ->
+                                                                    if b23
+                                                                    then 
+                                                                    if b24
+                                                                    then 
+                                                                    "badoptionscase"
+                                                                    else 
+                                                                    if b25
+                                                                    then 
+                                                                    if b26
+                                                                    then 
+                                                                    "badoptionscase"
+                                                                    else 
+                                                                    if b27
+                                                                    then 
+                                                                    if b28
+                                                                    then 
+                                                                    if b29
+                                                                    then 
+                                                                    if b30
+                                                                    then 
+                                                                    "badoptionscase"
+                                                                    else 
+                                                                    ((* If this appears, you're using String internals. Please don't *)
+ (fun f0 f1 s ->
+    let l = String.length s in
+    if l = 0 then f0 () else f1 (String.get s 0) (String.sub s 1 (l-1)))
+
+                                                                    (fun _ ->
+                                                                    "badoptionscase")
+                                                                    (fun a3 s4 ->
+                                                                    (* If this appears, you're using Ascii internals. Please don't *)
+ (fun f c ->
+  let n = Char.code c in
+  let h i = (n land (1 lsl i)) <> 0 in
+  f (h 0) (h 1) (h 2) (h 3) (h 4) (h 5) (h 6) (h 7))
+                                                                    (fun b31 b32 b33 b34 b35 b36 b37 b38 ->
+                                                                    if b31
+                                                                    then 
+                                                                    "badoptionscase"
+                                                                    else 
+                                                                    if b32
+                                                                    then 
+                                                                    "badoptionscase"
+                                                                    else 
+                                                                    if b33
+                                                                    then 
+                                                                    "badoptionscase"
+                                                                    else 
+                                                                    if b34
+                                                                    then 
+                                                                    "badoptionscase"
+                                                                    else 
+                                                                    if b35
+                                                                    then 
+                                                                    if b36
+                                                                    then 
+                                                                    if b37
+                                                                    then 
+                                                                    if b38
+                                                                    then 
+                                                                    "badoptionscase"
+                                                                    else 
+                                                                    ((* If this appears, you're using String internals. Please don't *)
+ (fun f0 f1 s ->
+    let l = String.length s in
+    if l = 0 then f0 () else f1 (String.get s 0) (String.sub s 1 (l-1)))
+
+                                                                    (fun _ ->
+                                                                    match 
+                                                                    rd_counted
+                                                                    rd_nd t1 with
+                                                                    | Some p ->
+                                                                    let (
+                                                                    probes, t2) =
+                                                                    p
+                                                                    in
+                                                                    (
+                                                                    match 
+                                                                    rd_counted
+                                                                    rd_config
+                                                                    t2 with
+                                                                    | Some p0 ->
+                                                                    let (
+                                                                    h, t3) =
+                                                                    p0
+                                                                    in
+                                                                    (
+                                                                    match 
+                                                                    rd_config
+                                                                    t3 with
+                                                                    | Some p1 ->
+                                                                    let (
+                                                                    c, _) = p1
+                                                                    in
+                                                                    run_setup
+                                                                    probes h c
+                                                                    | None ->
+                                                                    "badconfig")
+                                                                    | None ->
+                                                                    "badhistory")
+                                                                    | None ->
+                                                                    "badprobes")
+                                                                    (fun _ _ ->
+                                                                    "badoptionscase")
+                                                                    s4)
+                                                                    else 
+                                                                    "badoptionscase"
+                                                                    else 
+                                                                    "badoptionscase"
+                                                                    else 
+                                                                    "badoptionscase")
+                                                                    a3)
+                                                                    s3)
+                                                                    else 
+                                                                    "badoptionscase"
+                                                                    else 
+                                                                    "badoptionscase"
+                                                                    else 
+                                                                    "badoptionscase"
+                                                                    else 
+                                                                    "badoptionscase"
+                                                                    else 
+                                                                    "badoptionscase")
+                                                                    a2)
+                                                                    s2)
+                                                                    else 
+                                                                    "badoptionscase"
+                                                                    else 
+                                                                    "badoptionscase"
+                                                                    else 
+                                                                    "badoptionscase"
+                                                                    else 
+                                                                    "badoptionscase")
+                                                                    a1)
+                                                                    s1)
+                                                                    else 
+                                                                    "badoptionscase"
+                                                                    else 
+                                                                    "badoptionscase"
+                                                                 else 
+                                                                   "badoptionscase"
+                                                       else "badoptionscase")
+                                                       a0)
+                                                     s0)
+                                        else "badoptionscase"
+                                   else "badoptionscase"
+                              else "badoptionscase"
+               else if b1
+                    then "badoptionscase"
+                    else if b2
+                         then if b3
+                              then "badoptionscase"
+                              else if b4
+                                   then if b5
+                                        then if b6
+                                             then "badoptionscase"
+                                             else ((* If this appears, you're using String internals. Please don't *)
+ (fun f0 f1 s ->
+    let l = String.length s in
+    if l = 0 then f0 () else f1 (String.get s 0) (String.sub s 1 (l-1)))
+
+                                                     (fun _ ->
+                                                     "badoptionscase")
+                                                     (fun a0 s1 ->
+                                                     (* If this appears, you're using Ascii internals. Please don't *)
+ (fun f c ->
+  let n = Char.code c in
+  let h i = (n land (1 lsl i)) <> 0 in
+  f (h 0) (h 1) (h 2) (h 3) (h 4) (h 5) (h 6) (h 7))
+                                                       (fun b7 b8 b9 b10 b11 b12 b13 b14 ->
+                                                       if b7
+                                                       then "badoptionscase"
+                                                       else if b8
+                                                            then if b9
+                                                                 then 
+                                                                   if b10
+                                                                   then 
+                                                                    if b11
+                                                                    then 
+                                                                    "badoptionscase"
+                                                                    else 
+                                                                    if b12
+                                                                    then 
+                                                                    if b13
+                                                                    then 
+                                                                    if b14
+                                                                    then 
+                                                                    "badoptionscase"
+                                                                    else 
+                                                                    ((* If this appears, you're using String internals. Please don't *)
+ (fun f0 f1 s ->
+    let l = String.length s in
+    if l = 0 then f0 () else f1 (String.get s 0) (String.sub s 1 (l-1)))
+
+                                                                    (fun _ ->
+                                                                    "badoptionscase")
+                                                                    (fun a1 s2 ->
+                                                                    (* If this appears, you're using Ascii internals. Please don't *)
+ (fun f c ->
+  let n = Char.code c in
+  let h i = (n land (1 lsl i)) <> 0 in
+  f (h 0) (h 1) (h 2) (h 3) (h 4) (h 5) (h 6) (h 7))
+                                                                    (fun b15 b16 b17 b18 b19 b20 b21 b22 ->
+                                                                    if b15
+                                                                    then 
+                                                                    "badoptionscase"
+                                                                    else 
+                                                                    if b16
+                                                                    then 
+                                                                    "badoptionscase"
+                                                                    else 
+                                                                    if b17
+                                                                    then 
+                                                                    if b18
+                                                                    then 
+                                                                    "badoptionscase"
+                                                                    else 
+                                                                    if b19
+                                                                    then 
+                                                                    if b20
+                                                                    then 
+                                                                    if b21
+                                                                    then 
+                                                                    if b22
+                                                                    then 
+                                                                    "badoptionscase"
+                                                                    else 
+                                                                    ((* If this appears, you're using String internals. Please don't *)
+ (fun f0 f1 s ->
+    let l = String.length s in
+    if l = 0 then f0 () else f1 (String.get s 0) (String.sub s 1 (l-1)))
+
+                                                                    (fun _ ->
+                                                                    match 
+                                                                    rd_value
+                                                                    t1 with
+                                                                    | Some p ->
+                                                                    let (
+                                                                    v, _) = p
+                                                                    in
+                                                                    (^)
+                                                                    "normalize="
+                                                                    ((^)
+                                                                    (show_oval
+                                                                    (normalize_val
+                                                                    v))
+                                                                    ((^)
+                                                                    " int="
+                                                                    ((^)
+                                                                    (show_resZ_o
+                                                                    (py_int0
+                                                                    v))
+                                                                    ((^)
+                                                                    " str="
+                                                                    (hex_of
+                                                                    (py_str v))))))
+                                                                    | None ->
+                                                                    "badvalue")
+                                                                    (fun _ _ ->
+                                                                    "badoptionscase")
+                                                                    s2)
+                                                                    else 
+                                                                    "badoptionscase"
+                                                                    else 
+                                                                    "badoptionscase"
+                                                                    else 
+                                                                    "badoptionscase"
+                                                                    else 
+                                                                    "badoptionscase")
+                                                                    a1)
+                                                                    s1)
+                                                                    else 
+                                                                    "badoptionscase"
+                                                                    else 
+                                                                    "badoptionscase"
+                                                                   else 
+                                                                    "badoptionscase"
+                                                                 else 
+                                                                   "badoptionscase"
+                                                            else "badoptionscase")
+                                                       a0)
+                                                     s0)
+                                        else "badoptionscase"
+                                   else "badoptionscase"
+                         else "badoptionscase"
+          else if b0
+               then "badoptionscase"
+               else if b1
+                    then "badoptionscase"
+                    else if b2
+                         then "badoptionscase"
+                         else if b3
+                              then if b4
+                                   then if b5
+                                        then if b6
+                                             then "badoptionscase"
+                                             else ((* If this appears, you're using String internals. Please don't *)
+ (fun f0 f1 s ->
+    let l = String.length s in
+    if l = 0 then f0 () else f1 (String.get s 0) (String.sub s 1 (l-1)))
+
+                                                     (fun _ ->
+                                                     "badoptionscase")
+                                                     (fun a0 s1 ->
+                                                     (* If this appears, you're using Ascii internals. Please don't *)
+ (fun f c ->
+  let n = Char.code c in
+  let h i = (n land (1 lsl i)) <> 0 in
+  f (h 0) (h 1) (h 2) (h 3) (h 4) (h 5) (h 6) (h 7))
+                                                       (fun b7 b8 b9 b10 b11 b12 b13 b14 ->
+                                                       if b7
+                                                       then if b8
+                                                            then "badoptionscase"
+                                                            else if b9
+                                                                 then 
+                                                                   "badoptionscase"
+                                                                 else 
+                                                                   if b10
+                                                                   then 
+                                                                    "badoptionscase"
+                                                                   else 
+                                                                    if b11
+                                                                    then 
+                                                                    "badoptionscase"
+                                                                    else 
+                                                                    if b12
+                                                                    then 
+                                                                    if b13
+                                                                    then 
+                                                                    if b14
+                                                                    then 
+                                                                    "badoptionscase"
+                                                                    else 
+                                                                    ((* If this appears, you're using String internals. Please don't *)
+ (fun f0 f1 s ->
+    let l = String.length s in
+    if l = 0 then f0 () else f1 (String.get s 0) (String.sub s 1 (l-1)))
+
+                                                                    (fun _ ->
+                                                                    "badoptionscase")
+                                                                    (fun a1 s2 ->
+                                                                    (* If this appears, you're using Ascii internals. Please don't *)
+ (fun f c ->
+  let n = Char.code c in
+  let h i = (n land (1 lsl i)) <> 0 in
+  f (h 0) (h 1) (h 2) (h 3) (h 4) (h 5) (h 6) (h 7))
+                                                                    (fun b15 b16 b17 b18 b19 b20 b21 b22 ->
+                                                                    if b15
+                                                                    then 
+                                                                    "badoptionscase"
+                                                                    else 
+                                                                    if b16
+                                                                    then 
+                                                                    if b17
+                                                                    then 
+                                                                    "badoptionscase"
+                                                                    else 
+                                                                    if b18
+                                                                    then 
+                                                                    "badoptionscase"
+                                                                    else 
+                                                                    if b19
+                                                                    then 
+                                                                    if b20
+                                                                    then 
+                                                                    if b21
+                                                                    then 
+                                                                    if b22
+                                                                    then 
+                                                                    "badoptionscase"
+                                                                    else 
+                                                                    ((* If this appears, you're using String internals. Please don't *)
+ (fun f0 f1 s ->
+    let l = String.length s in
+    if l = 0 then f0 () else f1 (String.get s 0) (String.sub s 1 (l-1)))
+
+                                                                    (fun _ ->
+                                                                    "badoptionscase")
+                                                                    (fun a2 s3 ->
+                                                                    (* If this appears, you're using Ascii internals. Please don't *)
+ (fun f c ->
+  let n = Char.code c in
+  let h i = (n land (1 lsl i)) <> 0 in
+  f (h 0) (h 1) (h 2) (h 3) (h 4) (h 5) (h 6) (h 7))
+                                                                    (fun b23 b24 b25 b26 b27 b28 b29 b30 ->
+                                                                    if b23
+                                                                    then 
+                                                                    if b24
+                                                                    then 
+                                                                    if b25
+                                                                    then 
+                                                                    "badoptionscase"
+                                                                    else 
+                                                                    if b26
+                                                                    then 
+                                                                    "badoptionscase"
+                                                                    else 
+                                                                    if b27
+                                                                    then 
+                                                                    if b28
+                                                                    then 
+                                                                    if b29
+                                                                    then 
+                                                                    if b30
+                                                                    then 
+                                                                    "badoptionscase"
+                                                                    else 
+                                                                    ((* If this appears, you're using String internals. Please don't *)
+ (fun f0 f1 s ->
+    let l = String.length s in
+    if l = 0 then f0 () else f1 (String.get s 0) (String.sub s 1 (l-1)))
+
+                                                                    (fun _ ->
+                                                                    "badoptionscase")
+                                                                    (fun a3 s4 ->
+                                                                    (* If this appears, you're using Ascii internals. Please don't *)
+ (fun f c ->
+  let n = Char.code c in
+  let h i = (n land (1 lsl i)) <> 0 in
+  f (h 0) (h 1) (h 2) (h 3) (h 4) (h 5) (h 6) (h 7))
+                                                                    (fun b31 b32 b33 b34 b35 b36 b37 b38 ->
+                                                                    if b31
+                                                                    then 
+                                                                    if b32
+                                                                    then 
+                                                                    "badoptionscase"
+                                                                    else 
+                                                                    if b33
+                                                                    then 
+                                                                    if b34
+                                                                    then 
+                                                                    "badoptionscase"
+                                                                    else 
+                                                                    if b35
+                                                                    then 
+                                                                    "badoptionscase"
+                                                                    else 
+                                                                    if b36
+                                                                    then 
+                                                                    if b37
+                                                                    then 
+                                                                    if b38
+                                                                    then 
+                                                                    "badoptionscase"
+                                                                    else 
+                                                                    ((* If this appears, you're using String internals. Please don't *)
+ (fun f0 f1 s ->
+    let l = String.length s in
+    if l = 0 then f0 () else f1 (String.get s 0) (String.sub s 1 (l-1)))
+
+                                                                    (fun _ ->
+                                                                    match 
+                                                                    rd_counted
+                                                                    rd_s t1 with
+                                                                    | Some p ->
+                                                                    let (
+                                                                    ss, _) = p
+                                                                    in
+                                                                    show_res_dict
+                                                                    (parse0
+                                                                    ss)
+                                                                    | None ->
+                                                                    "badstrs")
+                                                                    (fun _ _ ->
+                                                                    "badoptionscase")
+                                                                    s4)
+                                                                    else 
+                                                                    "badoptionscase"
+                                                                    else 
+                                                                    "badoptionscase"
+                                                                    else 
+                                                                    "badoptionscase"
+                                                                    else 
+                                                                    "badoptionscase")
+                                                                    a3)
+                                                                    s3)
+                                                                    else 
+                                                                    "badoptionscase"
+                                                                    else 
+                                                                    "badoptionscase"
+                                                                    else 
+                                                                    "badoptionscase"
+                                                                    else 
+                                                                    "badoptionscase"
+                                                                    else 
+                                                                    "badoptionscase")
+                                                                    a2)
+                                                                    s2)
+                                                                    else 
+                                                                    "badoptionscase"
+                                                                    else 
+                                                                    "badoptionscase"
+                                                                    else 
+                                                                    "badoptionscase"
+                                                                    else 
+                                                                    "badoptionscase")
+                                                                    a1)
+                                                                    s1)
+                                                                    else 
+                                                                    "badoptionscase"
+                                                                    else 
+                                                                    "badoptionscase"
+                                                       else "badoptionscase")
+                                                       a0)
+                                                     s0)
+                                        else "badoptionscase"
+                                   else "badoptionscase"
+                              else "badoptionscase")
+          a)
+        s))
 
 (** val show_resZ : z res -> string **)
 
@@ -8256,7 +10797,311 @@ let run = function
           if b
           then if b0
                then if b1
-                    then "badcommand"
+                    then if b2
+                         then if b3
+                              then "badcommand"
+                              else if b4
+                                   then if b5
+                                        then if b6
+                                             then "badcommand"
+                                             else ((* If this appears, you're using String internals. Please don't *)
+ (fun f0 f1 s ->
+    let l = String.length s in
+    if l = 0 then f0 () else f1 (String.get s 0) (String.sub s 1 (l-1)))
+
+                                                     (fun _ ->
+                                                     "badcommand")
+                                                     (fun a0 s1 ->
+                                                     (* If this appears, you're using Ascii internals. Please don't *)
+ (fun f c ->
+  let n = Char.code c in
+  let h i = (n land (1 lsl i)) <> 0 in
+  f (h 0) (h 1) (h 2) (h 3) (h 4) (h 5) (h 6) (h 7))
+                                                       (fun b7 b8 b9 b10 b11 b12 b13 b14 ->
+                                                       if b7
+                                                       then "badcommand"
+                                                       else if b8
+                                                            then "badcommand"
+                                                            else if b9
+                                                                 then 
+                                                                   "badcommand"
+                                                                 else 
+                                                                   if b10
+                                                                   then 
+                                                                    "badcommand"
+                                                                   else 
+                                                                    if b11
+                                                                    then 
+                                                                    if b12
+                                                                    then 
+                                                                    if b13
+                                                                    then 
+                                                                    if b14
+                                                                    then 
+                                                                    "badcommand"
+                                                                    else 
+                                                                    ((* If this appears, you're using String internals. Please don't *)
+ (fun f0 f1 s ->
+    let l = String.length s in
+    if l = 0 then f0 () else f1 (String.get s 0) (String.sub s 1 (l-1)))
+
+                                                                    (fun _ ->
+                                                                    "badcommand")
+                                                                    (fun a1 s2 ->
+                                                                    (* If this appears, you're using Ascii internals. Please don't *)
+ (fun f c ->
+  let n = Char.code c in
+  let h i = (n land (1 lsl i)) <> 0 in
+  f (h 0) (h 1) (h 2) (h 3) (h 4) (h 5) (h 6) (h 7))
+                                                                    (fun b15 b16 b17 b18 b19 b20 b21 b22 ->
+                                                                    if b15
+                                                                    then 
+                                                                    "badcommand"
+                                                                    else 
+                                                                    if b16
+                                                                    then 
+                                                                    "badcommand"
+                                                                    else 
+                                                                    if b17
+                                                                    then 
+                                                                    if b18
+                                                                    then 
+                                                                    "badcommand"
+                                                                    else 
+                                                                    if b19
+                                                                    then 
+                                                                    if b20
+                                                                    then 
+                                                                    if b21
+                                                                    then 
+                                                                    if b22
+                                                                    then 
+                                                                    "badcommand"
+                                                                    else 
+                                                                    ((* If this appears, you're using String internals. Please don't *)
+ (fun f0 f1 s ->
+    let l = String.length s in
+    if l = 0 then f0 () else f1 (String.get s 0) (String.sub s 1 (l-1)))
+
+                                                                    (fun _ ->
+                                                                    "badcommand")
+                                                                    (fun a2 s3 ->
+                                                                    (* If this appears, you're using Ascii internals. Please don't *)
+ (fun f c ->
+  let n = Char.code c in
+  let h i = (n land (1 lsl i)) <> 0 in
+  f (h 0) (h 1) (h 2) (h 3) (h 4) (h 5) (h 6) (h 7))
+                                                                    (fun b23 b24 b25 b26 b27 b28 b29 b30 ->
+                                                                    if b23
+                                                                    then 
+                                                                    if b24
+                                                                    then 
+                                                                    "badcommand"
+                                                                    else 
+                                                                    if b25
+                                                                    then 
+                                                                    "badcommand"
+                                                                    else 
+                                                                    if b26
+                                                                    then 
+                                                                    if b27
+                                                                    then 
+                                                                    "badcommand"
+                                                                    else 
+                                                                    if b28
+                                                                    then 
+                                                                    if b29
+                                                                    then 
+                                                                    if b30
+                                                                    then 
+                                                                    "badcommand"
+                                                                    else 
+                                                                    ((* If this appears, you're using String internals. Please don't *)
+ (fun f0 f1 s ->
+    let l = String.length s in
+    if l = 0 then f0 () else f1 (String.get s 0) (String.sub s 1 (l-1)))
+
+                                                                    (fun _ ->
+                                                                    "badcommand")
+                                                                    (fun a3 s4 ->
+                                                                    (* If this appears, you're using Ascii internals. Please don't *)
+ (fun f c ->
+  let n = Char.code c in
+  let h i = (n land (1 lsl i)) <> 0 in
+  f (h 0) (h 1) (h 2) (h 3) (h 4) (h 5) (h 6) (h 7))
+                                                                    (fun b31 b32 b33 b34 b35 b36 b37 b38 ->
+                                                                    if b31
+                                                                    then 
+                                                                    if b32
+                                                                    then 
+                                                                    if b33
+                                                                    then 
+                                                                    if b34
+                                                                    then 
+                                                                    if b35
+                                                                    then 
+                                                                    "badcommand"
+                                                                    else 
+                                                                    if b36
+                                                                    then 
+                                                                    if b37
+                                                                    then 
+                                                                    if b38
+                                                                    then 
+                                                                    "badcommand"
+                                                                    else 
+                                                                    ((* If this appears, you're using String internals. Please don't *)
+ (fun f0 f1 s ->
+    let l = String.length s in
+    if l = 0 then f0 () else f1 (String.get s 0) (String.sub s 1 (l-1)))
+
+                                                                    (fun _ ->
+                                                                    "badcommand")
+                                                                    (fun a4 s5 ->
+                                                                    (* If this appears, you're using Ascii internals. Please don't *)
+ (fun f c ->
+  let n = Char.code c in
+  let h i = (n land (1 lsl i)) <> 0 in
+  f (h 0) (h 1) (h 2) (h 3) (h 4) (h 5) (h 6) (h 7))
+                                                                    (fun b39 b40 b41 b42 b43 b44 b45 b46 ->
+                                                                    if b39
+                                                                    then 
+                                                                    "badcommand"
+                                                                    else 
+                                                                    if b40
+                                                                    then 
+                                                                    if b41
+                                                                    then 
+                                                                    if b42
+                                                                    then 
+                                                                    if b43
+                                                                    then 
+                                                                    "badcommand"
+                                                                    else 
+                                                                    if b44
+                                                                    then 
+                                                                    if b45
+                                                                    then 
+                                                                    if b46
+                                                                    then 
+                                                                    "badcommand"
+                                                                    else 
+                                                                    ((* If this appears, you're using String internals. Please don't *)
+ (fun f0 f1 s ->
+    let l = String.length s in
+    if l = 0 then f0 () else f1 (String.get s 0) (String.sub s 1 (l-1)))
+
+                                                                    (fun _ ->
+                                                                    "badcommand")
+                                                                    (fun a5 s6 ->
+                                                                    (* If this appears, you're using Ascii internals. Please don't *)
+ (fun f c ->
+  let n = Char.code c in
+  let h i = (n land (1 lsl i)) <> 0 in
+  f (h 0) (h 1) (h 2) (h 3) (h 4) (h 5) (h 6) (h 7))
+                                                                    (fun b47 b48 b49 b50 b51 b52 b53 b54 ->
+                                                                    if b47
+                                                                    then 
+                                                                    if b48
+                                                                    then 
+                                                                    if b49
+                                                                    then 
+                                                                    "badcommand"
+                                                                    else 
+                                                                    if b50
+                                                                    then 
+                                                                    "badcommand"
+                                                                    else 
+                                                                    if b51
+                                                                    then 
+                                                                    if b52
+                                                                    then 
+                                                                    if b53
+                                                                    then 
+                                                                    if b54
+                                                                    then 
+                                                                    "badcommand"
+                                                                    else 
+                                                                    ((* If this appears, you're using String internals. Please don't *)
+ (fun f0 f1 s ->
+    let l = String.length s in
+    if l = 0 then f0 () else f1 (String.get s 0) (String.sub s 1 (l-1)))
+
+                                                                    (fun _ ->
+                                                                    run_options
+                                                                    rest)
+                                                                    (fun _ _ ->
+                                                                    "badcommand")
+                                                                    s6)
+                                                                    else 
+                                                                    "badcommand"
+                                                                    else 
+                                                                    "badcommand"
+                                                                    else 
+                                                                    "badcommand"
+                                                                    else 
+                                                                    "badcommand"
+                                                                    else 
+                                                                    "badcommand")
+                                                                    a5)
+                                                                    s5)
+                                                                    else 
+                                                                    "badcommand"
+                                                                    else 
+                                                                    "badcommand"
+                                                                    else 
+                                                                    "badcommand"
+                                                                    else 
+                                                                    "badcommand"
+                                                                    else 
+                                                                    "badcommand")
+                                                                    a4)
+                                                                    s4)
+                                                                    else 
+                                                                    "badcommand"
+                                                                    else 
+                                                                    "badcommand"
+                                                                    else 
+                                                                    "badcommand"
+                                                                    else 
+                                                                    "badcommand"
+                                                                    else 
+                                                                    "badcommand"
+                                                                    else 
+                                                                    "badcommand")
+                                                                    a3)
+                                                                    s3)
+                                                                    else 
+                                                                    "badcommand"
+                                                                    else 
+                                                                    "badcommand"
+                                                                    else 
+                                                                    "badcommand"
+                                                                    else 
+                                                                    "badcommand")
+                                                                    a2)
+                                                                    s2)
+                                                                    else 
+                                                                    "badcommand"
+                                                                    else 
+                                                                    "badcommand"
+                                                                    else 
+                                                                    "badcommand"
+                                                                    else 
+                                                                    "badcommand")
+                                                                    a1)
+                                                                    s1)
+                                                                    else 
+                                                                    "badcommand"
+                                                                    else 
+                                                                    "badcommand"
+                                                                    else 
+                                                                    "badcommand")
+                                                       a0)
+                                                     s0)
+                                        else "badcommand"
+                                   else "badcommand"
+                         else "badcommand"
                     else if b2
                          then "badcommand"
                          else if b3
